@@ -2,7 +2,10 @@
 from __future__ import annotations
 
 import ast
+import builtins
+import collections
 import functools
+import itertools
 import operator
 import re
 import struct
@@ -115,6 +118,122 @@ def table_entries(const_expr, it: ast.AST) -> list[ast.AST] | None:
     return None
 
 
+# ------------------------------------------------------------------------------------------ small result objects
+def record_class_fields(k: ClassInfo) -> list[tuple[str, str, ast.AST | None]] | None:
+    """
+    (constructor parameter, attribute, default | None) in constructor order when class k is a plain immutable-style record: a NamedTuple,
+    a dataclass without a hand-written __init__ / __new__ / __post_init__, or a class whose __init__ only stores its parameters
+    (`self.a = a`).  For such a class `K(x, y).a` IS x: the object is nothing but a named tuple of the values it was built from.
+    """
+    names = {b.split(".")[-1].split("[")[0] for b in k.all_base_names()}
+    decos = {(chain(d.func if isinstance(d, ast.Call) else d) or "").split(".")[-1] for d in k.node.decorator_list}
+    own_init = k.lookup("__init__")
+    if own_init is not None and own_init.cls is not None and own_init.cls.name == "object":
+        own_init = None
+    if k.lookup("__new__") is not None or k.lookup("__getattr__") is not None or k.lookup("__getattribute__") is not None:
+        return None
+    if "NamedTuple" in names or ("dataclass" in decos and own_init is None and k.lookup("__post_init__") is None):
+        out: list = []
+        for c in reversed(k.mro()):
+            for st in c.node.body:
+                if isinstance(st, ast.AnnAssign) and isinstance(st.target, ast.Name):
+                    if "ClassVar" in norm(st.annotation):
+                        continue
+                    out = [x for x in out if x[0] != st.target.id]
+                    out.append((st.target.id, st.target.id, st.value))
+        # a property / method of the same name as a field cannot exist; other members do not change what the fields hold
+        return out or None
+    if own_init is not None:
+        a = own_init.node.args
+        if a.vararg is not None or a.kwarg is not None or a.kwonlyargs:
+            return None
+        params = [p.arg for p in a.posonlyargs + a.args][1:]
+        defaults = dict(zip(params[len(params) - len(a.defaults):], a.defaults)) if a.defaults else {}
+        attr_of: dict[str, str] = {}
+        for st in own_init.node.body:
+            if isinstance(st, ast.Expr) and isinstance(st.value, ast.Constant):
+                continue
+            tg = st.targets[0] if isinstance(st, ast.Assign) and len(st.targets) == 1 else st.target if isinstance(st, ast.AnnAssign) else None
+            v = strip_cast(st.value) if isinstance(st, (ast.Assign, ast.AnnAssign)) and st.value is not None else None
+            if not (isinstance(tg, ast.Attribute) and isinstance(tg.value, ast.Name) and tg.value.id == "self"
+                    and isinstance(v, ast.Name) and v.id in params and v.id not in attr_of):
+                return None
+            attr_of[v.id] = tg.attr
+        if not attr_of:
+            return None
+        # the attributes must not be written anywhere else in the class (then they would not keep the constructor's values)
+        for m in k.methods.values():
+            if m is own_init:
+                continue
+            for st in walk_no_nested(m.node):
+                if isinstance(st, ast.Attribute) and isinstance(st.ctx, (ast.Store, ast.Del)) and st.attr in attr_of.values():
+                    return None
+        return [(p, attr_of.get(p, "\0" + p), defaults.get(p)) for p in params]
+    return None
+
+
+def _factory_fields(e: ast.AST) -> list[tuple[str, str, ast.AST | None]] | None:
+    """fields of `namedtuple("X", "a b")` / `namedtuple("X", ["a", "b"])` / `NamedTuple("X", [("a", int), ...])`"""
+    e = strip_cast(e)
+    if not (isinstance(e, ast.Call) and (chain(e.func) or "").split(".")[-1] in ("namedtuple", "NamedTuple") and len(e.args) == 2 and not e.keywords):
+        return None
+    spec = e.args[1]
+    cv = const_value(spec)
+    if isinstance(cv, str):
+        names = cv.replace(",", " ").split()
+    elif isinstance(spec, (ast.Tuple, ast.List)):
+        names = []
+        for x in spec.elts:
+            if isinstance(x, (ast.Tuple, ast.List)) and x.elts:
+                x = x.elts[0]
+            v = const_value(x)
+            if not isinstance(v, str):
+                return None
+            names.append(v)
+    else:
+        return None
+    return [(n, n, None) for n in names] or None
+
+
+def record_fields_of_callee(repo, module, func: ast.AST, is_local=None):
+    """(fields, kind) when `func(...)` constructs a plain record (see record_class_fields), a namedtuple-factory product, or a `slice`."""
+    func = strip_cast(func)
+    if isinstance(func, ast.Name) and is_local is not None and is_local(func.id):
+        return None
+    k = repo.resolve_class_expr(module, func)
+    if k is not None:
+        cache = repo.__dict__.setdefault("_c02_record_classes", {})
+        if k not in cache:
+            cache[k] = record_class_fields(k)
+        f = cache[k]
+        if f is None:
+            return None
+        tuple_like = "NamedTuple" in {b.split(".")[-1].split("[")[0] for b in k.all_base_names()}
+        return f, ("tuple" if tuple_like else "object")
+    if isinstance(func, ast.Name):
+        r = repo.resolve_name(module, func.id)
+        if isinstance(r, tuple) and r[0] == "const":
+            f = _factory_fields(r[2])
+            return (f, "tuple") if f else None
+        if func.id == "slice" and r is None and func.id not in module.imports:
+            return [("start", "start", None), ("stop", "stop", None), ("step", "step", ast.Constant(value=None))], "slice"
+    return None
+
+
+def _pick(kind: str, items: list, e: ast.AST):
+    """the part of a record (kind, [(attribute | None, x)]) that `<rec>.attr` / `<rec>[i]` selects; None when it selects none"""
+    if isinstance(e, ast.Attribute):
+        for a, v in items:
+            if a is not None and a == e.attr:
+                return v
+        return None
+    if isinstance(e, ast.Subscript) and kind == "tuple":
+        i = const_value(e.slice)
+        if isinstance(i, int) and not isinstance(i, bool) and -len(items) <= i < len(items):
+            return items[i][1]
+    return None
+
+
 class PackerModel:
     def __init__(self, ctx: Ctx, cls: ClassInfo) -> None:
         self.ctx = ctx
@@ -186,6 +305,16 @@ class PackerModel:
             return key
         return None
 
+    def struct_of_call(self, e: ast.AST, fmt_of=None) -> str | None:
+        """key for an inline `Struct(fmt)` / `struct.Struct(fmt)` construction (fmt_of: maps the format expression to what it stands for)"""
+        e = strip_cast(e)
+        if isinstance(e, ast.Call) and chain(e.func) in ("Struct", "struct.Struct") and len(e.args) == 1 and not e.keywords:
+            f = fmt_of(e.args[0]) if fmt_of is not None else e.args[0]
+            key = "%" + norm(f)
+            self.struct_attr.setdefault(key, f if isinstance(const_value(f), str) else norm(f))
+            return key
+        return None
+
     def fmt_size(self, e: ast.AST) -> Lin:
         cv = const_value(e)
         if isinstance(cv, str):
@@ -221,8 +350,14 @@ class UnpackRun:
         self.memo: dict = {}                    # (constant dict, key value) -> the entry this path assumes the lookup yields
         self.frames: list = []                  # saved caller frames while a helper is followed
         self.retvals = None                     # value(s) returned by the frame that just finished (followed helper)
+        self.recs: dict[str, tuple] = {}        # local -> (kind, [(attribute | None, value as value_of gives it)]): a small result object / tuple
+        self.out = p[3] if len(p) > 3 and p[3] else None     # the list the decoded value(s) are delivered to
+        self.blind: str | None = None           # set when the buffer is used in a way this run does not account for (bytes may be read unseen)
+        self.open_tag: str | None = None        # under an assumed tag: a condition that depends on the tag byte but could not be evaluated
+        self.n_out: int | None = 0              # number of values delivered on this path so far (None: not decidable)
 
-    _COPIED = ("env", "reads", "wire", "read_of", "tuples", "loops", "seen", "delegates", "delegate_fmts", "bind", "conds", "convs", "byte_of", "frames", "memo")
+    _COPIED = ("env", "reads", "wire", "read_of", "tuples", "loops", "seen", "delegates", "delegate_fmts", "bind", "conds", "convs", "byte_of", "frames", "memo",
+               "recs")
 
     def clone(self) -> "UnpackRun":
         r = UnpackRun.__new__(UnpackRun)
@@ -245,23 +380,154 @@ class UnpackRun:
                 if k is not None and k in self.memo:
                     e = strip_cast(self.memo[k])
                     continue
-            if isinstance(e, ast.Subscript) and not isinstance(e.slice, ast.Slice) and isinstance(strip_cast(e.value), (ast.Name, ast.Subscript)):
+            if isinstance(e, ast.Subscript) and not isinstance(e.slice, ast.Slice) and isinstance(strip_cast(e.value), (ast.Name, ast.Subscript, ast.Attribute)):
                 base = self.subst(e.value)
                 i = const_value(e.slice)
                 if isinstance(base, (ast.Tuple, ast.List)) and isinstance(i, int) and not isinstance(i, bool) and -len(base.elts) <= i < len(base.elts) \
                         and not any(isinstance(x, ast.Starred) for x in base.elts):
                     e = strip_cast(base.elts[i])
                     continue
+            if isinstance(e, (ast.Subscript, ast.Attribute)) and not (isinstance(e, ast.Subscript) and isinstance(e.slice, ast.Slice)):
+                # a part of a small result object: `entry.fmt` / `entry[1]` of a bound record display, `span.end` of a record local
+                found, v = self._rec_part(e)
+                if found and v is not None and v[0] == "const":
+                    e = strip_cast(v[1])
+                    continue
+                if not found and isinstance(strip_cast(e.value), (ast.Name, ast.Subscript, ast.Attribute)):
+                    base = self.subst(e.value)
+                    parts = self.closed_record(base) if base is not strip_cast(e.value) else None
+                    if parts is not None:
+                        kind, items = parts
+                        x = _pick(kind, items, e)
+                        if x is not None:
+                            e = strip_cast(x)
+                            continue
+                    elif base is not strip_cast(e.value) and isinstance(e, ast.Attribute) and isinstance(base, (ast.Name, ast.Attribute)) and self.closed(base):
+                        # `packer.length_format` where the parameter `packer` stands for the caller's `self`: the same attribute of that object
+                        e = ast.copy_location(ast.Attribute(value=base, attr=e.attr, ctx=ast.Load()), e)
+                        break
             break
         return e
+
+    # ---- small result objects (NamedTuple / dataclass / record class / tuple display / slice) held in a local or in a constant table
+    def closed_record(self, e: ast.AST):
+        """(kind, [(attribute | None, expr)]) when e is a display of a record whose parts are closed constant expressions."""
+        e = strip_cast(e)
+        if isinstance(e, (ast.Tuple, ast.List)):
+            return None if any(isinstance(x, ast.Starred) for x in e.elts) else ("tuple", [(None, x) for x in e.elts])
+        if not isinstance(e, ast.Call) or any(isinstance(a, ast.Starred) for a in e.args) or any(k.arg is None for k in e.keywords):
+            return None
+        got = record_fields_of_callee(self.pm.ctx.repo, self.fi.module, e.func, self._is_local)
+        if got is None:
+            return None
+        fields, kind = got
+        pos = list(e.args)
+        if kind == "slice" and len(pos) == 1 and not e.keywords:
+            pos = [ast.Constant(value=None), pos[0]]
+        if len(pos) > len(fields):
+            return None
+        given = {p: a for (p, _, _), a in zip(fields, pos)}
+        for kw in e.keywords:
+            if kw.arg in given or kw.arg not in {p for p, _, _ in fields}:
+                return None
+            given[kw.arg] = kw.value
+        items = []
+        for p_, attr, default in fields:
+            v = given.get(p_, default)
+            if v is None:
+                return None
+            items.append((attr, v))
+        return kind, items
+
+    def record_value(self, e: ast.AST):
+        """(kind, [(attribute | None, value)]) when e evaluates to a small result object on this path: a record local, a display of one."""
+        e = strip_cast(e)
+        if isinstance(e, ast.Name):
+            if e.id in self.recs:
+                return self.recs[e.id]
+            b = self.subst(e)
+            if b is e:
+                return None
+            e = b
+        if isinstance(e, (ast.Tuple, ast.List)):
+            vals = self._arg_values(e.elts)
+            return None if vals is None else ("tuple", [(None, v) for v in vals])
+        if not isinstance(e, ast.Call) or any(k.arg is None for k in e.keywords):
+            return None
+        got = record_fields_of_callee(self.pm.ctx.repo, self.fi.module, e.func, self._is_local)
+        if got is None:
+            return None
+        fields, kind = got
+        pos = self._arg_values(e.args)
+        if pos is None:
+            return None
+        if kind == "slice" and len(pos) == 1 and not e.keywords:
+            pos = [("const", ast.Constant(value=None)), pos[0]]
+        if len(pos) > len(fields):
+            return None
+        given = {p: (v,) for (p, _, _), v in zip(fields, pos)}
+        for kw in e.keywords:
+            if kw.arg in given or kw.arg not in {p for p, _, _ in fields}:
+                return None
+            given[kw.arg] = (self.value_of(kw.value),)
+        items = []
+        for p_, attr, default in fields:
+            if p_ in given:
+                items.append((attr, given[p_][0]))
+            elif default is not None:
+                d = strip_cast(default)
+                cv = const_value(d)
+                items.append((attr, ("lin", Lin(cv)) if isinstance(cv, int) and not isinstance(cv, bool) else ("const", d)))
+            else:
+                return None
+        return kind, items
+
+    def _arg_values(self, exprs) -> list | None:
+        """value_of every expression, `*rec` of a tuple-like record spliced in; None when a starred operand is not such a record"""
+        out = []
+        for x in exprs:
+            if isinstance(x, ast.Starred):
+                inner = self.record_value(x.value)
+                if inner is None or inner[0] != "tuple":
+                    return None
+                out.extend(v for _, v in inner[1])
+            else:
+                out.append(self.value_of(x))
+        return out
+
+    def _rec_part(self, e: ast.AST):
+        """(found, value) for `rec.attr` / `rec[i]` where rec is a record local (or a display of a record)"""
+        e = strip_cast(e)
+        if isinstance(e, ast.Attribute) or (isinstance(e, ast.Subscript) and not isinstance(e.slice, ast.Slice)):
+            b = strip_cast(e.value)
+            rec = None
+            if isinstance(b, ast.Name):
+                rec = self.recs.get(b.id)
+            elif isinstance(b, ast.Call):
+                rec = self.record_value(b)
+            if rec is not None:
+                return True, _pick(rec[0], rec[1], e)
+        return False, None
 
     def _is_local(self, name: str) -> bool:
         return name in self.fi.params() or bool(local_defs(self.fi, name))
 
     def closed(self, e: ast.AST) -> bool:
         """e mentions no local of the current function (so it means the same wherever it is evaluated on this path)."""
-        return not any(isinstance(n, ast.Name) and self._is_local(n.id) and n.id not in ("self", "cls") for n in ast.walk(e)) \
-            and not any(isinstance(n, (ast.Call, ast.Lambda, ast.ListComp, ast.GeneratorExp, ast.DictComp, ast.SetComp, ast.Await, ast.NamedExpr)) for n in ast.walk(e))
+        if any(isinstance(n, ast.Name) and self._is_local(n.id) and n.id not in ("self", "cls") for n in ast.walk(e)):
+            return False
+        return self._call_free(e)
+
+    def _call_free(self, e: ast.AST) -> bool:
+        """no call / lambda / comprehension inside e - except displays of plain records (`_Layout(TAG, ">4sH", 6)`), which only name their parts"""
+        if isinstance(e, (ast.Lambda, ast.ListComp, ast.GeneratorExp, ast.DictComp, ast.SetComp, ast.Await, ast.NamedExpr)):
+            return False
+        if isinstance(e, ast.Call):
+            if any(isinstance(a, ast.Starred) for a in e.args) or any(k.arg is None for k in e.keywords) \
+                    or record_fields_of_callee(self.pm.ctx.repo, self.fi.module, e.func, self._is_local) is None:
+                return False
+            return all(self._call_free(x) for x in [*e.args, *[k.value for k in e.keywords]])
+        return all(self._call_free(x) for x in ast.iter_child_nodes(e))
 
     def const_expr(self, e: ast.AST) -> ast.AST | None:
         """The literal (tuple / list / dict / set display) a module-level or class-level constant table denotes, if e names one."""
@@ -275,7 +541,7 @@ class UnpackRun:
         """Bind the names of an assignment / loop target to a closed constant expression (element-wise for tuple displays)."""
         value = self.subst(value)
         if isinstance(tgt, ast.Name):
-            for d in (self.env, self.tuples, self.wire, self.bind):
+            for d in (self.env, self.tuples, self.wire, self.bind, self.recs):
                 d.pop(tgt.id, None)
             self.bind[tgt.id] = value
             return
@@ -284,9 +550,15 @@ class UnpackRun:
             for t, v in zip(tgt.elts, value.elts):
                 self.bind_pattern(t, v)
             return
+        if isinstance(tgt, (ast.Tuple, ast.List)) and isinstance(value, ast.Call) and not any(isinstance(x, ast.Starred) for x in tgt.elts):
+            rec = self.closed_record(value)          # `tag, fmt, size = entry` where entry is a NamedTuple display of a constant table
+            if rec is not None and rec[0] == "tuple" and len(rec[1]) == len(tgt.elts):
+                for t, (_, v) in zip(tgt.elts, rec[1]):
+                    self.bind_pattern(t, v)
+                return
         for n in ast.walk(tgt):
             if isinstance(n, ast.Name):
-                for d in (self.env, self.tuples, self.wire, self.bind):
+                for d in (self.env, self.tuples, self.wire, self.bind, self.recs):
                     d.pop(n.id, None)
 
     # ---- decisions under the assumed tag / bound constants
@@ -311,6 +583,8 @@ class UnpackRun:
         if isinstance(e, ast.Constant):
             return e.value is None
         if isinstance(e, (ast.Tuple, ast.List, ast.Dict, ast.Set, ast.Lambda, ast.JoinedStr)):
+            return False
+        if isinstance(e, ast.Call) and self.closed_record(e) is not None:
             return False
         repo = self.pm.ctx.repo
         if isinstance(e, ast.Attribute) and isinstance(e.value, ast.Name) and e.value.id in ("self", "cls"):
@@ -351,6 +625,21 @@ class UnpackRun:
                         nn = self._none_ness(sx)
                         if nn is not None:
                             return nn == isinstance(op, (ast.Is, ast.Eq))
+        # a bound local compared with a constant: `kind is _Kind.IPV4` where kind stands for an entry of a constant table / a decision constant
+        sl, sr = self.subst(l), self.subst(r)
+        if sl is not strip_cast(l) or sr is not strip_cast(r):
+            if isinstance(op, (ast.Eq, ast.NotEq, ast.Is, ast.IsNot)):
+                eq = self._closed_equal(sl, sr)
+                if eq is not None:
+                    return eq == isinstance(op, (ast.Eq, ast.Is))
+            elif isinstance(op, (ast.In, ast.NotIn)) and sl is not strip_cast(l):
+                c = self.const_expr(r)
+                if isinstance(c, (ast.Tuple, ast.List, ast.Set)) and not any(isinstance(x, ast.Starred) for x in c.elts):
+                    eqs = [self._closed_equal(sl, self.subst(x)) for x in c.elts]
+                    if any(q is True for q in eqs):
+                        return isinstance(op, ast.In)
+                    if all(q is False for q in eqs):
+                        return isinstance(op, ast.NotIn)
         if self.assume is None:
             return None
         vals, tag = self.assume
@@ -375,14 +664,82 @@ class UnpackRun:
                     return (assumed in tvs) == isinstance(op, ast.In)
         return None
 
+    def _enum_member(self, e: ast.AST):
+        """(class, member name) when e is `K.NAME` with K an Enum class of /repo and NAME one of its members"""
+        if isinstance(e, ast.Attribute) and isinstance(e.value, (ast.Name, ast.Attribute)):
+            k = self.pm.ctx.repo.resolve_class_expr(self.fi.module, e.value)
+            if k is not None and any(b.split(".")[-1] in ("Enum", "IntEnum", "Flag", "IntFlag", "StrEnum") for b in k.all_base_names()) \
+                    and any(e.attr in c.attrs for c in k.mro()):
+                return k, e.attr
+        return None
+
+    def _closed_equal(self, x: ast.AST, y: ast.AST) -> bool | None:
+        """Do two closed constant expressions denote the same value?  None when that is not known."""
+        x, y = strip_cast(x), strip_cast(y)
+        if not (self.closed(x) and self.closed(y)):
+            return None
+        repo = self.pm.ctx.repo
+        mx, my = self._enum_member(x), self._enum_member(y)
+        if mx is not None and my is not None:
+            if mx[0] is not my[0]:
+                return False
+            if mx[1] == my[1]:
+                return True
+            ax, ay = mx[0].lookup_attr(mx[1]), my[0].lookup_attr(my[1])
+            vx, vy = (repo.resolve_const(mx[0].module, a, mx[0]) for a in (ax, ay))
+            if vx is not NOCONST and vy is not NOCONST:
+                return vx == vy and type(vx) is type(vy)       # equal values: one member under two names
+            auto = [isinstance(a, ast.Call) and (chain(a.func) or "").split(".")[-1] == "auto" and not a.args for a in (ax, ay)]
+            return False if all(auto) else None
+        if mx is not None or my is not None:
+            return None
+        vx, vy = repo.resolve_const(self.fi.module, x, self.fi.cls), repo.resolve_const(self.fi.module, y, self.fi.cls)
+        if vx is not NOCONST and vy is not NOCONST:
+            return vx == vy
+        if vx is NOCONST and vy is NOCONST:
+            def named(e):
+                if isinstance(e, ast.Name) and not self._is_local(e.id):
+                    r = repo.resolve_name(self.fi.module, e.id)
+                    return r if isinstance(r, (FuncInfo, ClassInfo)) else None
+                if isinstance(e, ast.Attribute) and isinstance(e.value, ast.Name) and e.value.id in ("self", "cls"):
+                    k = self.fi.cls or self.pm.cls
+                    return k.lookup(e.attr) if k is not None else None
+                return None
+            nx, ny = named(x), named(y)
+            if nx is not None and ny is not None:
+                return nx == ny
+        return None
+
     def cond(self, atom: ast.AST, lab) -> None:
         """A condition atom is evaluated with outcome `lab` on this path."""
         if lab in (True, False):
             v = self.decide(atom)
             if v is not None and v != lab:
                 raise _Infeasible
+            if v is None and self.assume is not None and self.open_tag is None and self._depends_on_tag(atom):
+                self.open_tag = norm(atom)[:60]          # a test that hangs on the type tag was left open: both outcomes are followed
             self.conds.append((atom, lab))
         self.scan_reads(atom)
+
+    def _depends_on_tag(self, e: ast.AST, depth: int = 0) -> bool:
+        """e mentions the first wire byte, or a local whose (unknown) value was computed from it (flow-insensitive over-approximation)"""
+        if depth > 4:
+            return False
+        for n in ast.walk(e):
+            if isinstance(n, ast.Subscript) and id(n) in self.byte_of and self.byte_of[id(n)] == 0 and self._tag_byte(n):
+                return True
+            if not isinstance(n, ast.Name) or n.id in ("self", "cls"):
+                continue
+            if n.id in self.env:
+                if self._tag_byte(n):
+                    return True
+                continue
+            if n.id in self.bind or n.id in self.tuples or n.id in self.recs or not self._is_local(n.id):
+                continue
+            for _, val, _ in local_defs(self.fi, n.id):
+                if val is not None and self._depends_on_tag(val, depth + 1):
+                    return True
+        return False
 
     # ---- constant-table lookups: `x = TABLE[key]` / `TABLE.get(key[, default])`
     def table_lookup(self, v: ast.AST):
@@ -434,6 +791,24 @@ class UnpackRun:
                 return [default]
         return list(d.values) + ([] if raises else [default])
 
+    def _struct_key(self, e: ast.AST) -> str | None:
+        """key of the precompiled struct e denotes: `self.X` / a module or class constant / an inline `Struct(fmt)` / a local holding one"""
+        k = self.pm.struct_of(e)
+        if k is not None:
+            return k
+        e = strip_cast(e)
+        k = self.pm.struct_of_call(e, self.subst)
+        if k is not None:
+            return k
+        if isinstance(e, ast.Name) and self._is_local(e.id) and e.id not in self.fi.params():
+            d = single_def(self.fi, e.id)
+            if d is not None and d[1] is None:
+                return self.pm.struct_of_call(d[0], self.subst)
+        if isinstance(e, ast.Name) and e.id in self.bind:
+            b = self.subst(e)
+            return self.pm.struct_of(b) if b is not e else None
+        return None
+
     def wsym(self, read: int, index: int) -> Lin:
         """Symbol of value `index` of struct read number `read` (named by position of the read, not by the local it is stored in)."""
         return Lin.sym(f"wire{read}[{index}]")
@@ -454,7 +829,15 @@ class UnpackRun:
             return Lin(cv)
         if isinstance(e, ast.Subscript) and id(e) in self.byte_of:
             return self.wsym(self.byte_of[id(e)], 0)
-        if isinstance(e, (ast.Name, ast.Subscript)):
+        if isinstance(e, (ast.Attribute, ast.Subscript)):
+            found, v = self._rec_part(e)
+            if found:
+                if v is not None and v[0] == "lin":
+                    return v[1]
+                if v is not None and v[0] == "const":
+                    return self.lin(v[1])
+                raise Unknown(f"part `{norm(e)[:40]}` of a result object")
+        if isinstance(e, (ast.Name, ast.Subscript, ast.Attribute)):
             b = self.subst(e)
             if b is not e:
                 return self.lin(b)
@@ -466,8 +849,8 @@ class UnpackRun:
                 if isinstance(c, int) and not isinstance(c, bool):
                     return Lin(c)
             raise Unknown(f"name {e.id}")
-        if isinstance(e, ast.Attribute) and e.attr == "size" and self.pm.struct_of(e.value) is not None:
-            return self.pm.struct_size(self.pm.struct_of(e.value))
+        if isinstance(e, ast.Attribute) and e.attr == "size" and self._struct_key(e.value) is not None:
+            return self.pm.struct_size(self._struct_key(e.value))
         if isinstance(e, ast.Attribute) and chain(e) and chain(e).startswith("self."):
             a = e.attr
             if a in self.pm.size_attr and chain(e).count(".") == 1:
@@ -499,35 +882,220 @@ class UnpackRun:
                 return self.wsym(r, i)
         raise Unknown(f"expression `{norm(e)[:50]}`")
 
-    def scan_reads(self, e: ast.AST) -> None:
+    _VIEWS = ("memoryview", "bytes", "bytearray")
+
+    def _is_data(self, x: ast.AST, depth: int = 0) -> bool:
+        """x denotes the data buffer: its name, a view / copy of it (`memoryview(data)`, `bytes(data)`), or a local that holds one"""
+        if self.data is None or x is None or depth > 3:
+            return False
+        x = strip_cast(x)
+        if isinstance(x, ast.Name):
+            if x.id == self.data:
+                return True
+            if self._is_local(x.id) and x.id not in self.fi.params():
+                d = single_def(self.fi, x.id)
+                return d is not None and d[1] is None and isinstance(strip_cast(d[0]), ast.Call) and self._is_data(d[0], depth + 1)
+            return False
+        return isinstance(x, ast.Call) and chain(x.func) in self._VIEWS and len(x.args) == 1 and not x.keywords and self._is_data(x.args[0], depth + 1)
+
+    def scan_reads(self, e: ast.AST) -> None:  # noqa: C901, PLR0912, PLR0915
         """Record unpack_from calls and slices of the data buffer inside an expression (in source order)."""
         self.seen.append(e)
         nodes = sorted((n for n in ast.walk(e) if isinstance(n, (ast.Call, ast.Subscript))), key=lambda n: (getattr(n, "lineno", 0), getattr(n, "col_offset", 0)))
+        self.count_deliveries(e)
+        inner_done: set[int] = set()
         for n in nodes:
-            if isinstance(n, ast.Call) and chain(n.func) in ("unpack_from", "struct.unpack_from") and chain(arg(n, 1)) == self.data:
+            if id(n) in inner_done:
+                continue
+            if isinstance(n, ast.Call) and chain(n.func) in ("unpack_from", "struct.unpack_from") and self._is_data(arg(n, 1, "buffer")):
                 off = arg(n, 2, "offset")
                 start = self.lin(off) if off is not None else Lin(0)
                 self.read_of[id(n)] = len(self.reads)
                 f = self.subst(n.args[0])
                 self.reads.append((start, self.pm.fmt_size(f), "struct:" + (const_value(f) if isinstance(const_value(f), str) else norm(f))))
-            elif isinstance(n, ast.Subscript) and not isinstance(n.slice, ast.Slice) and chain(n.value) == self.data and self.data is not None:
+            elif isinstance(n, ast.Subscript) and not isinstance(n.slice, ast.Slice) and self._is_data(n.value):
+                sl = self.record_value(n.slice)
+                if sl is not None and sl[0] == "slice":
+                    # data[slice(a, b)] / data[slice(*span)] / data[body] with body = slice(a, b): the bytes data[a:b]
+                    lo_v, hi_v, step_v = (v for _, v in sl[1])
+
+                    def is_none(v) -> bool:
+                        return v is not None and v[0] == "const" and isinstance(v[1], ast.Constant) and v[1].value is None
+
+                    def as_lin(v) -> Lin:
+                        if v is not None and v[0] == "lin":
+                            return v[1]
+                        if v is not None and v[0] == "const":
+                            return self.lin(v[1])
+                        raise Unknown(f"bound of `{norm(n)[:40]}`")
+                    if not is_none(step_v):
+                        raise Unknown(f"stepped slice `{norm(n)[:40]}`")
+                    lo = Lin(0) if is_none(lo_v) else as_lin(lo_v)
+                    if is_none(hi_v):
+                        self.reads.append((lo, Lin.sym("len(data)") - lo, "rest"))
+                    else:
+                        self.reads.append((lo, as_lin(hi_v) - lo, "bytes"))
+                    continue
                 # data[i]: one unsigned byte, the same value as unpack_from(">B", data, i)[0]
                 self.byte_of[id(n)] = len(self.reads)
                 self.reads.append((self.lin(n.slice), Lin(1), "struct:>B"))
-            elif isinstance(n, ast.Call) and isinstance(n.func, ast.Attribute) and n.func.attr == "unpack_from" and self.pm.struct_of(n.func.value) is not None \
-                    and chain(arg(n, 0, "buffer")) == self.data:
-                x = self.pm.struct_of(n.func.value)
+            elif isinstance(n, ast.Call) and isinstance(n.func, ast.Attribute) and n.func.attr == "unpack_from" and self._struct_key(n.func.value) is not None \
+                    and self._is_data(arg(n, 0, "buffer")):
+                x = self._struct_key(n.func.value)
                 off = arg(n, 1, "offset")
                 start = self.lin(off) if off is not None else Lin(0)
                 self.read_of[id(n)] = len(self.reads)
                 self.reads.append((start, self.pm.struct_size(x), "struct:" + self.pm.struct_fmt_text(x)))
-            elif isinstance(n, ast.Subscript) and isinstance(n.slice, ast.Slice) and chain(n.value) == self.data:
+            elif isinstance(n, ast.Subscript) and isinstance(n.slice, ast.Slice) and isinstance(strip_cast(n.value), ast.Subscript) \
+                    and isinstance(strip_cast(n.value).slice, ast.Slice) and self._is_data(strip_cast(n.value).value) \
+                    and strip_cast(n.value).slice.upper is None and strip_cast(n.value).slice.step is None and n.slice.step is None and n.slice.upper is not None:
+                # data[a:][:n] / data[a:][k:n]: the bytes data[a + k : a + n] (both spellings stop at the end of the buffer)
+                innr = strip_cast(n.value)
+                inner_done.add(id(innr))
+                base = self.lin(innr.slice.lower) if innr.slice.lower is not None else Lin(0)
+                lo = base + (self.lin(n.slice.lower) if n.slice.lower is not None else Lin(0))
+                self.reads.append((lo, base + self.lin(n.slice.upper) - lo, "bytes"))
+            elif isinstance(n, ast.Subscript) and isinstance(n.slice, ast.Slice) and self._is_data(n.value):
+                if n.slice.step is not None:
+                    raise Unknown(f"stepped slice `{norm(n)[:40]}`")
                 lo = self.lin(n.slice.lower) if n.slice.lower is not None else Lin(0)
                 if n.slice.upper is None:
                     self.reads.append((lo, Lin.sym("len(data)") - lo, "rest"))
                 else:
                     self.reads.append((lo, self.lin(n.slice.upper) - lo, "bytes"))
+            elif isinstance(n, ast.Call) and chain(n.func) in ("islice", "itertools.islice") and n.args and self._is_data(n.args[0]) and not n.keywords:
+                # islice(data, a, b): the elements (bytes) data[a:b]
+                bounds = n.args[1:]
+                if len(bounds) == 1:
+                    bounds = [ast.Constant(value=0), bounds[0]]
+                if len(bounds) != 2:
+                    raise Unknown(f"stepped islice `{norm(n)[:40]}`")
+                lo = Lin(0) if const_value(bounds[0]) is None else self.lin(bounds[0])
+                if const_value(bounds[1]) is None:
+                    self.reads.append((lo, Lin.sym("len(data)") - lo, "rest"))
+                else:
+                    self.reads.append((lo, self.lin(bounds[1]) - lo, "bytes"))
+        self._check_buffer_uses(e)
         self.convs |= _addr_conversions([e], self)
+
+    def _check_buffer_uses(self, e: ast.AST) -> None:
+        """Every mention of the data buffer in an evaluated expression must be one of the uses this run accounts for (a read, its length, a
+        view, a delegation); anything else may read bytes behind the run's back - then nothing is concluded about the path (Unknown)."""
+        if self.data is None:
+            return
+        for n in ast.walk(e):
+            if not (isinstance(n, ast.Name) and n.id == self.data and isinstance(n.ctx, ast.Load)):
+                continue
+            par = getattr(n, "_parent", None)
+            while isinstance(par, ast.Call) and chain(par.func) in ("cast", "typing.cast") and n in par.args:
+                n, par = par, getattr(par, "_parent", None)
+            if par is None or n is e:
+                continue
+            if isinstance(par, ast.Subscript) and par.value is n:
+                continue
+            if isinstance(par, (ast.Compare, ast.BoolOp, ast.UnaryOp, ast.IfExp, ast.FormattedValue, ast.If, ast.While, ast.Assert)):
+                continue
+            if isinstance(par, ast.keyword):
+                par = getattr(par, "_parent", None)
+            if isinstance(par, ast.Call):
+                c = chain(par.func) or ""
+                last = c.split(".")[-1]
+                if c in ("len", "id", "type", "isinstance", "hexlify", "repr", "str") or c in self._VIEWS or last in ("unpack_from", "islice") \
+                        or last in _NOT_FOLLOWED or last in ("hexlify", "hex"):
+                    continue
+            if self.blind is None:
+                self.blind = f"use of the buffer in `{norm(par if par is not None else n)[:50]}`"
+            return
+
+    # ---- values delivered to the unpack list
+    def seq_len(self, e: ast.AST, depth: int = 0) -> int | None:
+        """number of elements of a sequence expression when that is fixed: a display, a comprehension / map over a constant table or range(k)"""
+        e = strip_cast(e)
+        if depth > 4:
+            return None
+        if isinstance(e, (ast.List, ast.Tuple, ast.Set)) and not isinstance(e, ast.Set):
+            n = 0
+            for x in e.elts:
+                if isinstance(x, ast.Starred):
+                    k = self.seq_len(x.value, depth + 1)
+                    if k is None:
+                        return None
+                    n += k
+                else:
+                    n += 1
+            return n
+        if isinstance(e, (ast.ListComp, ast.GeneratorExp)) and len(e.generators) == 1 and not e.generators[0].ifs and not e.generators[0].is_async:
+            return self.seq_len(e.generators[0].iter, depth + 1)
+        if isinstance(e, ast.Call) and not e.keywords:
+            c = chain(e.func)
+            if c in ("list", "tuple", "reversed", "iter", "sorted") and len(e.args) == 1:
+                return self.seq_len(e.args[0], depth + 1)
+            if c == "map" and len(e.args) == 2:
+                return self.seq_len(e.args[1], depth + 1)
+            if c == "enumerate" and len(e.args) >= 1:
+                return self.seq_len(e.args[0], depth + 1)
+            if c == "zip" and e.args:
+                ks = [self.seq_len(a, depth + 1) for a in e.args]
+                return None if any(k is None for k in ks) else min(ks)
+            if c == "range" and 1 <= len(e.args) <= 3:
+                vals = [self.pm.ctx.repo.resolve_const(self.fi.module, a, self.fi.cls) for a in e.args]
+                if all(isinstance(v, int) and not isinstance(v, bool) for v in vals):
+                    try:
+                        return len(range(*vals))
+                    except ValueError:
+                        return None
+        if isinstance(e, ast.Name) and self._is_local(e.id):
+            if e.id in self.fi.params() and e.id not in self.bind:
+                return None
+            v = strip_cast(self.bind[e.id]) if e.id in self.bind else None
+            if v is None:
+                d = single_def(self.fi, e.id)
+                v = strip_cast(d[0]) if d is not None and d[1] is None else None
+            if v is None:
+                return None
+            mentions = sum(1 for n in ast.walk(self.fi.node) if isinstance(n, ast.Name) and n.id == e.id)
+            # a tuple keeps its length; a list only if nothing else ever touches it (it may be filled by the callee it is handed to)
+            if isinstance(v, (ast.List, ast.Set, ast.Dict, ast.ListComp)) or (isinstance(v, ast.Call) and chain(v.func) in ("list", "set", "dict", "bytearray")):
+                return self.seq_len(v, depth + 1) if mentions <= 2 and e.id not in self.fi.params() else None
+            return self.seq_len(v, depth + 1)
+        entries = self.table_entries(e)
+        if entries is not None:
+            return len(entries)
+        cv = self.pm.ctx.repo.resolve_const(self.fi.module, self.subst(e), self.fi.cls)
+        if isinstance(cv, (tuple, list, str, bytes)):
+            return len(cv)
+        return None
+
+    def count_deliveries(self, e: ast.AST) -> None:
+        """`out.append(x)` / `out.extend(seq)` / `out.insert(i, x)` inside an evaluated expression add to the number of delivered values"""
+        if self.out is None or self.n_out is None:
+            return
+        for n in ast.walk(e):
+            if isinstance(n, ast.Name) and n.id == self.out:
+                par = getattr(n, "_parent", None)
+                if isinstance(par, ast.Attribute) and par.value is n and isinstance(getattr(par, "_parent", None), ast.Call) and par._parent.func is par:
+                    call, meth = par._parent, par.attr
+                    if meth == "append" and len(call.args) == 1 and not call.keywords and not isinstance(call.args[0], ast.Starred):
+                        k = 1
+                    elif meth == "insert" and len(call.args) == 2 and not call.keywords:
+                        k = 1
+                    elif meth == "extend" and len(call.args) == 1 and not call.keywords:
+                        k = self.seq_len(call.args[0])
+                    elif meth in ("index", "count", "copy", "__len__"):
+                        k = 0
+                    else:
+                        k = None
+                    in_loop = any(isinstance(a, (ast.For, ast.While, ast.AsyncFor, ast.ListComp, ast.GeneratorExp, ast.SetComp, ast.DictComp, ast.Lambda))
+                                  for a in ancestors(n))
+                    self.n_out = None if k is None or in_loop else self.n_out + k
+                elif isinstance(par, ast.Call) and chain(par.func) == "len":
+                    pass
+                elif isinstance(par, (ast.Subscript, ast.Compare, ast.If, ast.While, ast.BoolOp, ast.UnaryOp)) or isinstance(n.ctx, ast.Load) and isinstance(par, ast.Expr):
+                    pass              # reading the list does not deliver anything
+                else:
+                    self.n_out = None     # handed on / rebound / aliased: not followed here
+                if self.n_out is None:
+                    return
 
     def enter_loop(self, loop: ast.For) -> None:
         """The body of `for .. in range(N)` is entered: remember N as a linear form (None when it is not one)."""
@@ -546,12 +1114,16 @@ class UnpackRun:
             if isinstance(t, ast.Name):
                 self.env.pop(t.id, None)
                 self.tuples.pop(t.id, None)
+                self.recs.pop(t.id, None)
 
     def value_of(self, x: ast.AST):
         """What one right-hand side evaluates to on this path: ("tuple", read) | ("lin", Lin) | ("const", closed expr) | None (unknown)."""
         r = self.wire_tuple(x)
         if r is not None:
             return ("tuple", r)
+        found, v = self._rec_part(x)
+        if found:
+            return v
         b = self.subst(x)
         cv = const_value(b)
         if self.closed(b) and not (isinstance(cv, int) and not isinstance(cv, bool)):
@@ -560,10 +1132,13 @@ class UnpackRun:
             return ("lin", self.lin(x))
         except Unknown:
             pass
+        rec = self.record_value(x)       # a small result object built from values of this path: `_Span(start, start + n)`, `(start, end)`, a record local
+        if rec is not None:
+            return ("rec", rec[0], rec[1])
         return None
 
     def assign(self, nm: str, val) -> None:
-        for d in (self.tuples, self.env, self.wire, self.bind):
+        for d in (self.tuples, self.env, self.wire, self.bind, self.recs):
             d.pop(nm, None)
         if val is None:
             return
@@ -571,6 +1146,8 @@ class UnpackRun:
             self.tuples[nm] = val[1]
         elif val[0] == "const":
             self.bind[nm] = val[1]
+        elif val[0] == "rec":
+            self.recs[nm] = (val[1], list(val[2]))
         else:
             self.env[nm] = val[1]
             if any(k.startswith("wire") for k in val[1].t):
@@ -594,12 +1171,15 @@ class UnpackRun:
             pos.append(kw.arg)
             if d is not None:
                 defaults[kw.arg] = d
-        env, tuples, bind, data = {}, {}, {}, None
+        env, tuples, bind, data, recs, out = {}, {}, {}, None, {}, None
         for prm in pos:
             if prm in given:
                 x = given[prm]
                 if chain(x) == self.data and self.data is not None:
                     data = prm
+                    continue
+                if self.out is not None and chain(x) == self.out:
+                    out = prm
                     continue
                 val = self.value_of(x)
             elif prm in defaults:
@@ -616,11 +1196,13 @@ class UnpackRun:
                 tuples[prm] = val[1]
             elif val[0] == "lin":
                 env[prm] = val[1]
+            elif val[0] == "rec":
+                recs[prm] = (val[1], list(val[2]))
             else:
                 bind[prm] = val[1]
-        self.frames.append((self.fi, self.data, self.off, self.env, self.tuples, self.bind, self.wire, recv))
-        self.fi, self.data, self.off = callee, data, None
-        self.env, self.tuples, self.bind, self.wire = env, tuples, bind, {}
+        self.frames.append((self.fi, self.data, self.off, self.env, self.tuples, self.bind, self.wire, recv, self.recs, self.out))
+        self.fi, self.data, self.off, self.out = callee, (data if data is not None else "\0no buffer"), None, out
+        self.env, self.tuples, self.bind, self.wire, self.recs = env, tuples, bind, {}, recs
         self.retvals = None
 
     def finish_frame(self, ret: ast.Return | None) -> None:
@@ -634,9 +1216,9 @@ class UnpackRun:
                 vals = [self.value_of(x) for x in lit.elts]
             else:
                 vals = self.value_of(v)
-        fi, data, off, env, tuples, bind, wire, _ = self.frames.pop()
-        self.fi, self.data, self.off = fi, data, off
-        self.env, self.tuples, self.bind, self.wire = dict(env), dict(tuples), dict(bind), dict(wire)
+        fi, data, off, env, tuples, bind, wire, _, recs, out = self.frames.pop()
+        self.fi, self.data, self.off, self.out = fi, data, off, out
+        self.env, self.tuples, self.bind, self.wire, self.recs = dict(env), dict(tuples), dict(bind), dict(wire), dict(recs)
         self.retvals = vals
 
     def enter_while(self, loop: ast.While) -> None:
@@ -699,6 +1281,9 @@ class UnpackRun:
                 return
             tg = s.targets[0] if isinstance(s, ast.Assign) else s.target
             core = strip_cast(v)
+            if self.out is not None and any(isinstance(n, ast.Name) and n.id == self.out for t in (s.targets if isinstance(s, ast.Assign) else [s.target])
+                                            for n in ast.walk(t)):
+                self.n_out = None         # the unpack list is rebound / stored into: what is delivered is not followed
             # delegated unpack: (value, offset) = X.unpack(fmt, data, offset)  |  offset = X.unpack(data, offset, ...)
             if isinstance(core, ast.Call) and call_name(core) == "unpack" and any(chain(a) == self.data for a in core.args):
                 offarg = [a for a in core.args if chain(a) in self.env and a is not core.args[0] or (chain(a) == self.off)]
@@ -722,7 +1307,7 @@ class UnpackRun:
                 return
             self.scan_reads(v)
             names = [norm(e) for e in tg.elts] if isinstance(tg, (ast.Tuple, ast.List)) else [norm(tg)]
-            lit = self.subst(core) if isinstance(core, (ast.Name, ast.Subscript, ast.Call)) else core
+            lit = self.subst(core) if isinstance(core, (ast.Name, ast.Subscript, ast.Call, ast.Attribute)) else core
             if isinstance(tg, (ast.Tuple, ast.List)) and isinstance(lit, (ast.Tuple, ast.List)) and len(lit.elts) == len(tg.elts) \
                     and not any(isinstance(x, ast.Starred) for x in list(lit.elts) + list(tg.elts)):
                 # simultaneous assignment `a, b = (x, y)` (what is left of a helper that returned a pair; an entry of a constant table):
@@ -731,12 +1316,20 @@ class UnpackRun:
                 for nm, val in zip(names, vals):
                     self.assign(nm, val)
                 return
+            if isinstance(tg, (ast.Tuple, ast.List)) and not any(isinstance(x, ast.Starred) for x in tg.elts):
+                # `start, end = _Span(a, b)` / `start, end = span`: a tuple-like result object hands each target the part it was built from
+                rec = self.record_value(lit)
+                if rec is not None and rec[0] == "tuple" and len(rec[1]) == len(tg.elts):
+                    for nm, (_, val) in zip(names, rec[1]):
+                        self.assign(nm, val)
+                    return
             if isinstance(tg, ast.Name) and lit is not core and self.closed(lit):
                 self.bind_pattern(tg, lit)          # `fmt = spec[0]` of a bound table entry
                 return
             for nm in names:
                 self.tuples.pop(nm, None)
                 self.bind.pop(nm, None)
+                self.recs.pop(nm, None)
             r = self.wire_tuple(core)
             if r is not None:
                 # the target(s) receive the value tuple of one struct read: `a, b = unpack_from(..)` / `t = unpack_from(..)`
@@ -755,6 +1348,12 @@ class UnpackRun:
                 for nm in names:
                     self.env.pop(nm, None)
             return
+        if isinstance(s, ast.AugAssign) and isinstance(s.target, ast.Name) and s.target.id == self.out and self.out is not None:
+            k = self.seq_len(s.value) if isinstance(s.op, ast.Add) else None
+            looped = any(isinstance(a, (ast.For, ast.While, ast.AsyncFor)) for a in ancestors(s))
+            self.n_out = None if k is None or looped or self.n_out is None else self.n_out + k
+            self.scan_reads(s.value)
+            return
         if isinstance(s, ast.AugAssign) and isinstance(s.target, ast.Name):
             if s.target.id in self.bind and s.target.id not in self.env:
                 try:
@@ -771,6 +1370,7 @@ class UnpackRun:
             else:
                 self.env.pop(s.target.id, None)
             self.tuples.pop(s.target.id, None)
+            self.recs.pop(s.target.id, None)
             self.scan_reads(s.value)
             return
         if isinstance(s, ast.Return):
@@ -820,9 +1420,11 @@ _NOT_FOLLOWED = ("unpack", "unpack_from", "pack", "pack_into", "iter_unpack", "c
                  "pack_serializable", "pack_serializable_list")
 
 
-def _followable(run: UnpackRun, call: ast.Call):
-    """(helper FuncInfo, receiver is implicit) when `call` hands the data buffer to a function of /repo that is not itself a packer's unpack."""
-    if run.data is None or not any(chain(a) == run.data for a in list(call.args) + [k.value for k in call.keywords]):
+def _followable(run: UnpackRun, call: ast.Call, need_buffer: bool = True):
+    """(helper FuncInfo, receiver is implicit) when `call` hands the data buffer / the unpack list to a function of /repo that is not itself a
+    packer's unpack.  need_buffer=False: any such function of the same module (a decision / arithmetic helper that sees neither)."""
+    passed = [chain(a) for a in list(call.args) + [k.value for k in call.keywords]]
+    if need_buffer and not ((run.data is not None and run.data in passed) or (run.out is not None and run.out in passed)):
         return None
     f = strip_cast(call.func)
     if isinstance(f, (ast.Name, ast.Subscript, ast.Call)):
@@ -849,6 +1451,9 @@ def _followable(run: UnpackRun, call: ast.Call):
             target = c.lookup(f.attr) if c is not None else None
             implicit = target is not None and "classmethod" in {d.split(".")[-1] for d in target.decorator_names()}
     if target is None or target.is_async or any(isinstance(x, (ast.Yield, ast.YieldFrom)) for x in walk_no_nested(target.node)):
+        return None
+    if not need_buffer and (target.module is not run.fi.module or target.node is run.fi.node or any(fr[0].node is target.node for fr in run.frames)
+                            or target.name in ("__init__", "unpack", "pack")):
         return None
     return target, implicit
 
@@ -887,10 +1492,38 @@ def _step(ctx: Ctx, pm: PackerModel, run: UnpackRun, node, lab, depth: int) -> l
 def _step_one(ctx: Ctx, pm: PackerModel, run: UnpackRun, node, lab, depth: int) -> list[UnpackRun]:
     a = node.ast
     if node.kind == "cond":
+        atom, neg = strip_cast(a), False
+        while isinstance(atom, ast.UnaryOp) and isinstance(atom.op, ast.Not):
+            atom, neg = strip_cast(atom.operand), not neg
+        if isinstance(atom, ast.Call) and lab in (True, False) and depth < 3:
+            # `if _is_ip_tag(address_type):` - a predicate helper that sees neither the buffer nor the unpack list: decided by running its paths
+            pure = _followable(run, atom, need_buffer=False)
+            res = _follow_pure(ctx, pm, run, a, atom, ast.Name(id="\0verdict", ctx=ast.Store()), "assign", pure, depth) if pure is not None else None
+            if res is not None:
+                out, decided_all = [], True
+                for fin in res:
+                    truth = None
+                    if "\0verdict" in fin.env and not fin.env["\0verdict"].t:
+                        truth = bool(fin.env["\0verdict"].c)
+                    elif "\0verdict" in fin.bind:
+                        cv = const_value(fin.bind["\0verdict"])
+                        if cv is not NOCONST and isinstance(cv, (bool, int, str, bytes, type(None), tuple)):
+                            truth = bool(cv)
+                    if truth is None:
+                        decided_all = False
+                        break
+                    fin.assign("\0verdict", None)
+                    if (truth != neg) == lab:
+                        fin.conds.append((a, lab))
+                        out.append(fin)
+                if decided_all:
+                    return out
         run.cond(a, lab)
         return [run]
     if node.kind == "loop" and isinstance(a, ast.For):
         entries = run.table_entries(a.iter)
+        if entries is not None:
+            entries = [run.subst(x) if isinstance(strip_cast(x), (ast.Name, ast.Subscript, ast.Attribute)) else x for x in entries]   # `(wanted,)` with wanted bound
         entered = any(l is a for l, _ in run.loops)
         if lab is True:
             if entries is not None and all(run.closed(x) for x in entries):
@@ -921,6 +1554,10 @@ def _step_one(ctx: Ctx, pm: PackerModel, run: UnpackRun, node, lab, depth: int) 
             callee, implicit = fol
             run.seen.append(call)
             for x in list(call.args) + [k.value for k in call.keywords]:
+                if run.out is not None and chain(x) == run.out:
+                    continue              # the unpack list handed to the followed helper: what it delivers is counted inside
+                if run.data is not None and chain(x) == run.data:
+                    continue              # the buffer handed to the followed helper: what it reads is recorded inside
                 run.scan_reads(x)
             sub = run.clone()
             sub.push_frame(callee, call, implicit)
@@ -937,6 +1574,8 @@ def _step_one(ctx: Ctx, pm: PackerModel, run: UnpackRun, node, lab, depth: int) 
                         raise Unknown(f"helper {callee.qualname} does not return an offset to `{norm(a)[:40]}`")
                     fin.ret, fin.ret_node = vals[1], a
                 elif kind == "assign":
+                    if isinstance(vals, tuple) and vals[0] == "rec" and vals[1] == "tuple" and isinstance(tgt, (ast.Tuple, ast.List)):
+                        vals = [v for _, v in vals[2]]          # `a, b = helper(..)` where the helper returns a NamedTuple
                     if isinstance(tgt, (ast.Tuple, ast.List)):
                         if isinstance(vals, list) and len(vals) == len(tgt.elts):
                             for t, v in zip(tgt.elts, vals):
@@ -944,15 +1583,71 @@ def _step_one(ctx: Ctx, pm: PackerModel, run: UnpackRun, node, lab, depth: int) 
                         else:
                             for t in tgt.elts:
                                 fin.assign(norm(t), None)
+                    elif isinstance(vals, list):
+                        fin.assign(norm(tgt), ("rec", "tuple", [(None, v) for v in vals]))     # `pair = helper(..)` returning `(a, b)`
                     else:
                         fin.assign(norm(tgt), vals if isinstance(vals, tuple) else None)
                 out.append(fin)
             return out
+        elif kind in ("assign", "return") and depth < 3:
+            # a helper that sees neither the buffer nor the unpack list (a decision / offset arithmetic that a loop or early returns kept the
+            # normaliser from inlining): its paths are run on copies, with the conditions decided under the same assumptions; if anything in it
+            # is not understood the call is treated as before - a value this run knows nothing about
+            pure = _followable(run, call, need_buffer=False)
+            if pure is not None:
+                res = _follow_pure(ctx, pm, run, a, call, tgt, kind, pure, depth)
+                if res is not None:
+                    return res
     if isinstance(a, ast.Return) and run.frames:
         run.finish_frame(a)
         return [run]
     run.stmt(a)
     return [run]
+
+
+def _follow_pure(ctx: Ctx, pm: PackerModel, run: UnpackRun, a, call: ast.Call, tgt, kind: str, pure, depth: int):
+    callee, implicit = pure
+    probe = run.clone()
+    try:
+        probe.seen.append(call)
+        for x in list(call.args) + [k.value for k in call.keywords]:
+            probe.scan_reads(x)
+        if probe.blind is not None:
+            return None
+        sub = probe.clone()
+        sub.push_frame(callee, call, implicit)
+        out = []
+        for fin, err in _exec_paths(ctx, pm, callee, sub, depth + 1):
+            if err or fin.blind is not None:
+                return None
+            vals = fin.retvals
+            if kind == "return" and fin.frames:
+                fin.finish_frame(None)
+                fin.retvals = vals
+            elif kind == "return":
+                if not (isinstance(vals, tuple) and vals[0] == "lin"):
+                    return None
+                fin.ret, fin.ret_node = vals[1], a
+            else:
+                if isinstance(vals, tuple) and vals[0] == "rec" and vals[1] == "tuple" and isinstance(tgt, (ast.Tuple, ast.List)):
+                    vals = [v for _, v in vals[2]]
+                if isinstance(tgt, (ast.Tuple, ast.List)):
+                    if isinstance(vals, list) and len(vals) == len(tgt.elts):
+                        for t, v in zip(tgt.elts, vals):
+                            fin.assign(norm(t), v)
+                    else:
+                        for t in tgt.elts:
+                            fin.assign(norm(t), None)
+                elif isinstance(vals, list):
+                    fin.assign(norm(tgt), ("rec", "tuple", [(None, v) for v in vals]))
+                else:
+                    fin.assign(norm(tgt), vals if isinstance(vals, tuple) else None)
+            out.append(fin)
+            if len(out) > 8:
+                return None           # too many ways through the helper to carry along: treated as a value nothing is known about
+        return out
+    except (Unknown, AnalysisError, RecursionError):
+        return None
 
 
 def _exec_paths(ctx: Ctx, pm: PackerModel, fi: FuncInfo, start: UnpackRun, depth: int = 0):
@@ -973,7 +1668,9 @@ def _exec_paths(ctx: Ctx, pm: PackerModel, fi: FuncInfo, start: UnpackRun, depth
                     continue
                 except Unknown as u:
                     out.append((run, f"unknown: {u}"))
-            states = nxt
+            for run in [r for r in nxt if r.blind is not None]:
+                out.append((run, f"unknown: {run.blind}"))          # nothing is concluded about a path that may read bytes unseen
+            states = [r for r in nxt if r.blind is None]
             if len(states) > 64:
                 raise AnalysisError(f"undecided: packer-symmetry: {fi.qualname}: more than 64 alternatives on one path")
         for run in states:
@@ -1029,6 +1726,35 @@ class _Expand(ast.NodeTransformer):
         return n
 
 
+def _fmt_template(f: ast.AST, depth: int = 0) -> str | None:
+    """
+    A struct format assembled from constant text and computed numbers, with every computed part written `{n}`:
+    f">BH{len(h)}sH", ">BH%dsH" % len(h), ">BH{}sH".format(len(h)), ">BH" + str(len(h)) + "sH", "".join((">BH", str(len(h)), "sH")).
+    """
+    f = strip_cast(f)
+    if depth > 4:
+        return None
+    cv = const_value(f)
+    if isinstance(cv, str):
+        return cv
+    if isinstance(f, ast.JoinedStr):
+        return "".join(v.value if isinstance(v, ast.Constant) else "{n}" for v in f.values)
+    if isinstance(f, ast.BinOp) and isinstance(f.op, ast.Mod) and isinstance(const_value(f.left), str):
+        return re.sub(r"%[0-9]*[dis]", "{n}", const_value(f.left))
+    if isinstance(f, ast.BinOp) and isinstance(f.op, ast.Add):
+        l, r = _fmt_template(f.left, depth + 1), _fmt_template(f.right, depth + 1)
+        return l + r if l is not None and r is not None else None
+    if isinstance(f, ast.Call) and isinstance(f.func, ast.Attribute) and f.func.attr == "format" and isinstance(const_value(f.func.value), str):
+        return re.sub(r"\{[^{}]*\}", "{n}", const_value(f.func.value))
+    if isinstance(f, ast.Call) and isinstance(f.func, ast.Attribute) and f.func.attr == "join" and const_value(f.func.value) == "" and len(f.args) == 1 \
+            and isinstance(strip_cast(f.args[0]), (ast.Tuple, ast.List)):
+        parts = [_fmt_template(x, depth + 1) for x in strip_cast(f.args[0]).elts]
+        return "".join(parts) if all(p is not None for p in parts) else None
+    if isinstance(f, ast.Call) and chain(f.func) in ("str", "repr", "format") and len(f.args) >= 1:
+        return "{n}"
+    return None
+
+
 class PackRun:
     """
     The byte string a pack method returns, as pieces, for every way through its statements: locals are followed through plain and
@@ -1048,14 +1774,60 @@ class PackRun:
     def expand(self, e: ast.AST, st: _PackState) -> ast.AST:
         if not any(isinstance(n, ast.Name) and n.id in st.defs for n in ast.walk(e)):
             return e
-        return ast.fix_missing_locations(_Expand(st.defs).visit(clone(e)))
+        out = ast.fix_missing_locations(_Expand(st.defs).visit(clone(e)))
+        if self.pm is not None and any(isinstance(n, (ast.Attribute, ast.Subscript)) and isinstance(n.value, (ast.Call, ast.Tuple, ast.List)) for n in ast.walk(out)):
+            out = ast.fix_missing_locations(self._fold_records(out))
+        return out
+
+    def _record_display(self, e: ast.AST):
+        """(kind, [(attribute | None, expr)]) for a tuple display / a display of a plain record class (`_Family(TAG, ">B4sH", AF_INET)`)"""
+        e = strip_cast(e)
+        if isinstance(e, (ast.Tuple, ast.List)):
+            return None if any(isinstance(x, ast.Starred) for x in e.elts) else ("tuple", [(None, x) for x in e.elts])
+        if not isinstance(e, ast.Call) or self.pm is None or any(isinstance(a, ast.Starred) for a in e.args) or any(k.arg is None for k in e.keywords):
+            return None
+        got = record_fields_of_callee(self.pm.ctx.repo, self.fi.module, e.func, lambda nm: nm in self.fi.params() or bool(local_defs(self.fi, nm)))
+        if got is None or got[1] == "slice":
+            return None
+        fields, kind = got
+        if len(e.args) > len(fields):
+            return None
+        given = {p: a for (p, _, _), a in zip(fields, e.args)}
+        for kw in e.keywords:
+            if kw.arg in given or kw.arg not in {p for p, _, _ in fields}:
+                return None
+            given[kw.arg] = kw.value
+        items = []
+        for p_, attr, default in fields:
+            v = given.get(p_, default)
+            if v is None:
+                return None
+            items.append((attr, v))
+        return kind, items
+
+    def _fold_records(self, e: ast.AST) -> ast.AST:
+        """`_Family(TAG, F, AF).fmt` -> F, `(a, b)[1]` -> b: a part of a record display is the expression it was built from"""
+        run = self
+
+        class Fold(ast.NodeTransformer):
+            def visit_Attribute(self, n):
+                self.generic_visit(n)
+                rec = run._record_display(n.value) if isinstance(n.value, ast.Call) else None
+                x = _pick(rec[0], rec[1], n) if rec is not None else None
+                return clone(x) if x is not None else n
+
+            def visit_Subscript(self, n):
+                self.generic_visit(n)
+                rec = run._record_display(n.value) if isinstance(n.value, (ast.Call, ast.Tuple, ast.List)) and not isinstance(n.slice, ast.Slice) else None
+                x = _pick(rec[0], rec[1], n) if rec is not None else None
+                return clone(x) if x is not None else n
+        return Fold().visit(e)
 
     def _fmt_text(self, f: ast.AST) -> str:
         if isinstance(const_value(f), str):
             return const_value(f)
-        if isinstance(f, ast.JoinedStr):
-            return "".join(v.value if isinstance(v, ast.Constant) else "{n}" for v in f.values)
-        return norm(f)
+        t = _fmt_template(f)
+        return t if t is not None else norm(f)
 
     def pieces(self, e: ast.AST, st: _PackState) -> list:
         e = strip_cast(e)
@@ -1065,9 +1837,21 @@ class PackRun:
             f = self.expand(e.args[0], st)
             args = [self.expand(a, st) for a in e.args[1:]]
             return [("struct", self._fmt_text(f), [norm(a) for a in args], args)]
-        if self.pm is not None and isinstance(e, ast.Call) and isinstance(e.func, ast.Attribute) and e.func.attr == "pack" and self.pm.struct_of(e.func.value) is not None:
-            args = [self.expand(a, st) for a in e.args]
-            return [("struct", self.pm.struct_fmt_text(self.pm.struct_of(e.func.value)), [norm(a) for a in args], args)]
+        if self.pm is not None and isinstance(e, ast.Call) and isinstance(e.func, ast.Attribute) and e.func.attr == "pack":
+            recv = self.expand(e.func.value, st)          # `self.X` / a constant / an inline `Struct(fmt)` / a local that holds one
+            key = self.pm.struct_of(recv) or self.pm.struct_of_call(recv)
+            if key is not None:
+                args = [self.expand(a, st) for a in e.args]
+                return [("struct", self.pm.struct_fmt_text(key), [norm(a) for a in args], args)]
+        if isinstance(e, ast.Call) and chain(e.func) == "bytes" and len(e.args) == 1 and not e.keywords and isinstance(strip_cast(e.args[0]), (ast.List, ast.Tuple)) \
+                and strip_cast(e.args[0]).elts and not any(isinstance(x, ast.Starred) for x in strip_cast(e.args[0]).elts):
+            # bytes([a, b]): one unsigned byte per element, the same bytes as pack(">BB", a, b)
+            args = [self.expand(a, st) for a in strip_cast(e.args[0]).elts]
+            return [("struct", ">" + "B" * len(args), [norm(a) for a in args], args)]
+        if isinstance(e, ast.Call) and isinstance(e.func, ast.Attribute) and e.func.attr == "to_bytes" and 1 <= len(e.args) <= 2 and const_value(e.args[0]) == 1 \
+                and not any(k.arg == "signed" for k in e.keywords):
+            recv = self.expand(e.func.value, st)            # x.to_bytes(1, "big"): one unsigned byte
+            return [("struct", ">B", [norm(recv)], [recv])]
         if isinstance(e, ast.Name):
             if e.id in st.bytes:
                 return list(st.bytes[e.id])
@@ -1096,8 +1880,16 @@ class PackRun:
         return states
 
     def _closed(self, e: ast.AST) -> bool:
-        return not any(isinstance(n, ast.Name) and (n.id in self.fi.params() or local_defs(self.fi, n.id)) and n.id not in ("self", "cls") for n in ast.walk(e)) \
-            and not any(isinstance(n, (ast.Call, ast.Lambda, ast.ListComp, ast.GeneratorExp, ast.DictComp, ast.SetComp, ast.Await, ast.NamedExpr)) for n in ast.walk(e))
+        if any(isinstance(n, ast.Name) and (n.id in self.fi.params() or local_defs(self.fi, n.id)) and n.id not in ("self", "cls") for n in ast.walk(e)):
+            return False
+        return self._call_free(e)
+
+    def _call_free(self, e: ast.AST) -> bool:
+        if isinstance(e, (ast.Lambda, ast.ListComp, ast.GeneratorExp, ast.DictComp, ast.SetComp, ast.Await, ast.NamedExpr)):
+            return False
+        if isinstance(e, ast.Call):
+            return self._record_display(e) is not None and all(self._call_free(x) for x in [*e.args, *[k.value for k in e.keywords]])
+        return all(self._call_free(x) for x in ast.iter_child_nodes(e))
 
     def _bind(self, st: _PackState, tgt: ast.AST, value: ast.AST) -> None:
         value = strip_cast(value)
@@ -1107,6 +1899,10 @@ class PackRun:
         elif isinstance(tgt, (ast.Tuple, ast.List)) and isinstance(value, (ast.Tuple, ast.List)) and len(tgt.elts) == len(value.elts) \
                 and not any(isinstance(x, ast.Starred) for x in list(tgt.elts) + list(value.elts)):
             for t, v in zip(tgt.elts, value.elts):
+                self._bind(st, t, v)
+        elif isinstance(tgt, (ast.Tuple, ast.List)) and isinstance(value, ast.Call) and not any(isinstance(x, ast.Starred) for x in tgt.elts) \
+                and (self._record_display(value) or ("", []))[0] == "tuple" and len(self._record_display(value)[1]) == len(tgt.elts):
+            for t, (_, v) in zip(tgt.elts, self._record_display(value)[1]):
                 self._bind(st, t, v)
         else:
             for n in ast.walk(tgt):
@@ -1364,6 +2160,13 @@ def rule_packer_symmetry(ctx: Ctx) -> None:
         runs = run_unpack_paths(ctx, pm, un)
         if un.cls is not cls:
             continue            # inherited unchanged: analysed at the defining class
+        abstract_gap = next((err for _, err in runs if err), None) if cls.name == "ListOf" else None
+        if abstract_gap is not None:
+            # the path-by-path run does not understand how the items are repeated (a callable object, reduce, an iterator pipeline): the list
+            # framing is decided by interpreting pack / unpack instead (see _listof_interpreted); nothing is concluded from the partial paths
+            _listof_interpreted(ctx, cls, pk, un, f"the abstract run stops at: {abstract_gap}")
+            n_paths += len(runs)
+            continue
         for run, err in runs:
             n_paths += 1
             if err:
@@ -1372,6 +2175,17 @@ def rule_packer_symmetry(ctx: Ctx) -> None:
             layout = " | ".join(f"{k}@{s}+{l}" for s, l, k in run.reads)
             ctx.check(msg is None, "packer-symmetry", un, un.node, f"{cls.name}.unpack path [{layout}] -> returns {run.ret}: reads tile [offset, return)",
                       f"{cls.name}.unpack: {msg}: the reported end offset is not the absolute end of what was consumed (path [{layout}], returns {run.ret})")
+            # every returning path delivers exactly the values the format stands for (one; eight for 'bits'): the Serializer lines the delivered
+            # values up with from_unpack_list's parameters / the items of a list, so a path that consumes bytes but delivers nothing (or twice)
+            # shifts every later field or shortens the decoded list - decode(encode(m)) != m
+            want = 8 if cls.name == "Bits" else 1
+            if run.n_out is not None:
+                conds = "; ".join(f"{'' if lab else 'not '}{norm(a)[:40]}" for a, lab in run.conds[-3:])
+                ctx.check(run.n_out == want, "packer-symmetry", un, un.node,
+                          f"{cls.name}.unpack path [{layout}]{' when ' + conds if conds else ''}: delivers {want} value(s) to the unpack list",
+                          f"{cls.name}.unpack: a returning path (bytes read: [{layout}]{'; taken when ' + conds if conds else ''}) appends {run.n_out} value(s) to the unpack "
+                          f"list instead of {want}: the bytes are consumed but the decoded item is dropped / duplicated, so the decoded message has "
+                          "fewer / shifted values than the encoded one and re-encoding gives other bytes")
         # ---- layout agreement with pack
         alts = pack_pieces(pk, pm)
         un_structs = [[k[len("struct:"):] for _, _, k in run.reads if k.startswith("struct:")] for run, _ in runs]
@@ -1386,6 +2200,137 @@ def rule_packer_symmetry(ctx: Ctx) -> None:
             memo = [d for d in f.decorator_names() if d.split(".")[-1] in ("lru_cache", "cache", "cached_property")]
             ctx.check(not memo, "packer-symmetry", f, f.node, f"{f.qualname}: not memoised",
                       f"{f.qualname} is memoised ({memo}): every message with the same wire bytes decodes to the SAME mutable object, so changing one decoded value changes later decodes")
+
+
+def _varlenutf8_interpreted(ctx: Ctx, cls: ClassInfo, pk: FuncInfo, un: FuncInfo) -> str | None:
+    """
+    VarLenUtf8 = the length-prefixed UTF-8 encoding of a str: __init__ / pack / unpack (and the VarLen methods they reach through super())
+    are interpreted on sample strings (empty, ASCII, 2/3/4-byte code points) for the registered length formats; returns what differs
+    from `prefix(len(utf8)) + utf8` / its inverse, None when nothing does.  Undecided when the methods cannot be interpreted.
+    """
+    repo = ctx.repo
+    init = cls.lookup("__init__")
+    try:
+        for lf in (">H", ">I"):
+            me = Opaque("VarLenUtf8 instance")
+
+            def hooks(name, base, args, kwargs, me=me):
+                if name == "super":
+                    return Opaque("super()", {"\0super": True})
+                if isinstance(base, Opaque) and base.attrs.get("\0super") and name is not None:
+                    meth = name.split(".")[-1]
+                    nxt = next((k.methods[meth] for k in cls.mro()[1:] if meth in k.methods), None)
+                    if nxt is None or nxt.cls.name in ("Packer", "object"):
+                        return None if meth == "__init__" else NotImplemented
+                    return Mini(repo, nxt, hooks)(me, *args, **kwargs)
+                return struct_hooks(name, base, args, kwargs)
+            if init is not None and init.cls.name not in ("Packer", "object"):
+                Mini(repo, init, hooks)(me, lf)
+            width = struct.calcsize(lf)
+            for text in ("", "abc", "h\u00e9llo \u20ac", "\U0001d11e clef", "x" * 300):
+                raw = text.encode("utf-8")
+                want = struct.pack(lf, len(raw)) + raw
+                try:
+                    got = Mini(repo, pk, hooks)(me, text)
+                except MiniRaised as e:
+                    return f"pack({text[:12]!r}) raises {e}"
+                if got != want:
+                    return f"pack({text[:12]!r}) gives {str(got)[:40]!r}, not the length-prefixed UTF-8 bytes"
+                out: list = []
+                data = b"\x01\x02\x03" + want + b"\xff"
+                try:
+                    end = Mini(repo, un, hooks)(me, data, 3, out)
+                except MiniRaised as e:
+                    return f"unpack of the packed {text[:12]!r} raises {e}"
+                if out != [text] or not all(isinstance(x, str) for x in out) or end != 3 + width + len(raw):
+                    return f"unpack of the packed {text[:12]!r} delivers {str(out)[:40]} and returns {end!r}"
+    except MiniUndecided as e:
+        raise AnalysisError(f"undecided: packer-symmetry: VarLenUtf8 does not have the reviewed encode()/decode() shape and cannot be interpreted: {e}") from e
+    return None
+
+
+def _listof_interpreted(ctx: Ctx, cls: ClassInfo, pk: FuncInfo, un: FuncInfo, why: str) -> None:
+    """
+    ListOf framing decided by what the methods compute: __init__, pack and unpack are interpreted (mini interpreter over their AST, struct =
+    trusted stdlib, nothing of /repo is run) with a stand-in inner packer whose items have varying sizes, for EVERY count a one-byte prefix
+    can hold (0..255, the length format every shipped '-list' name uses) and sample counts of a two-byte prefix.  Required: pack writes the
+    count with the length format followed by the packed items in order; unpack reads the count at the offset, calls the inner packer exactly
+    count times, the first time right behind the prefix and then where the previous item ended, always on the same buffer, into one fresh
+    list that is delivered once, passes the extra arguments on, and returns where the last item ended.
+    """
+    repo = ctx.repo
+    init = cls.lookup("__init__")
+    if init is None:
+        raise AnalysisError("anchor-lost: ListOf.__init__")
+
+    def problem() -> str | None:  # noqa: C901, PLR0911, PLR0912
+        for lf in (">B", ">H"):
+            width = struct.calcsize(lf)
+            for n in (range(256) if lf == ">B" else (0, 1, 2, 255, 256, 700)):
+                sizes = [(7 * i + 3) % 5 + 1 for i in range(n)]
+                inner, me, extra = Opaque("inner packer"), Opaque("ListOf instance"), Opaque("extra argument")
+                calls: list = []
+
+                def hooks(name, base, args, kwargs, inner=inner, calls=calls, sizes=sizes):
+                    if base is inner and name is not None and name.split(".")[-1] == "unpack":
+                        if kwargs or len(args) < 3 or not isinstance(args[1], int) or not isinstance(args[2], list):
+                            raise MiniUndecided(f"inner packer called as unpack{tuple(args)!r}")
+                        i = len(calls)
+                        calls.append((args[0], args[1], args[2], tuple(args[3:])))
+                        args[2].append(("item", i))
+                        return args[1] + (sizes[i] if i < len(sizes) else 1)
+                    if base is inner and name is not None and name.split(".")[-1] == "pack":
+                        if kwargs or len(args) != 1 or not (isinstance(args[0], tuple) and args[0][:1] == ("item",)):
+                            raise MiniUndecided(f"inner packer called as pack{tuple(args)!r}")
+                        return bytes([args[0][1] % 251 + 1]) * sizes[args[0][1]]
+                    return struct_hooks(name, base, args, kwargs)
+                Mini(repo, init, hooks)(me, inner, lf)
+                body = b"".join(bytes([i % 251 + 1]) * sizes[i] for i in range(n))
+                # ---- pack
+                try:
+                    got = Mini(repo, pk, hooks, fuel=400000)(me, [("item", i) for i in range(n)])
+                except MiniRaised as e:
+                    got = f"raises {e}"
+                want = struct.pack(lf, n) + body
+                if got != want:
+                    return f"pack of {n} items with length format {lf!r} gives {str(got)[:60]!r}, not the count followed by the packed items"
+                # ---- unpack
+                data = b"\xaa\xaa\xaa" + want + b"\xbb\xbb"
+                out: list = []
+                try:
+                    end = Mini(repo, un, hooks, fuel=400000)(me, data, 3, out, extra)
+                except MiniRaised as e:
+                    return f"unpack of {n} items (length format {lf!r}) raises {e}"
+                if len(calls) != n:
+                    return f"the count on the wire is {n} but the inner packer is run {len(calls)} times"
+                pos = 3 + width
+                for i, (d, off, lst, rest) in enumerate(calls):
+                    if d is not data and d != data:
+                        return "the inner packer is not run on the buffer that was handed in"
+                    if off != pos:
+                        return f"item {i} of {n} is read at offset {off}, the previous one ended at {pos}: the offset is not threaded"
+                    if lst is not calls[0][2]:
+                        return "the items are not collected in one list"
+                    if rest != (extra,):
+                        return "the extra arguments are not passed on to the inner packer"
+                    pos = off + sizes[i]
+                if end != pos:
+                    return f"unpack of {n} items returns offset {end!r}, the last item ended at {pos}"
+                items = [("item", i) for i in range(n)]
+                if not (len(out) == 1 and isinstance(out[0], list) and out[0] == items and (n == 0 or out[0] is calls[0][2])):
+                    return f"unpack of {n} items delivers {str(out)[:60]} instead of one list of the {n} items in order"
+        return None
+    try:
+        bad = problem()
+    except MiniUndecided as e:
+        raise AnalysisError(f"undecided: packer-symmetry: ListOf ({why}) and its methods cannot be interpreted either: {e}") from e
+    if bad is None:
+        # agreement on the counts that were tried is no proof (a two-byte prefix is only sampled): the evaluation may refute, never accept
+        raise AnalysisError(f"undecided: packer-symmetry: ListOf ({why}): its framing is not one of the recognised shapes; no counter-example among the evaluated "
+                            "counts, but that the count drives the inner unpacks for every count is not decided")
+    ctx.check(False, "packer-symmetry", un, un.node,
+              f"ListOf (evaluated for the counts 0..255, since {why}): count prefix = number of items; the inner packer runs count times on the threaded offset",
+              f"ListOf: {bad}: the item count on the wire does not drive the number of inner unpacks / the offset is not threaded")
 
 
 def _layout_agreement(ctx: Ctx, cls: ClassInfo, pk: FuncInfo, un: FuncInfo, alts, runs) -> None:
@@ -1455,8 +2400,8 @@ def _layout_agreement(ctx: Ctx, cls: ClassInfo, pk: FuncInfo, un: FuncInfo, alts
         odd = [l for l in walk_no_nested(un.node) if isinstance(l, (ast.While, ast.For, ast.AsyncFor)) and (id(l) not in loops_seen or loops_seen[id(l)][1] is None)
                and any(call_name(c) == "unpack" for c in calls(l))]
         if odd:
-            raise AnalysisError(f"undecided: packer-symmetry: ListOf.unpack repeats the inner packer with `{norm(odd[0])[:60]}`; only a loop whose number of rounds "
-                                "is a linear form (`for .. in range(count)`, a counting `while`) is decided")
+            _listof_interpreted(ctx, cls, pk, un, f"the inner packer is repeated with `{norm(odd[0])[:60]}`")
+            return
         looped = [r for r, _ in runs if r.loops]
         ok = cnt == [("len", "1")] and bool(looped)
         for r, _ in runs:
@@ -1471,6 +2416,10 @@ def _layout_agreement(ctx: Ctx, cls: ClassInfo, pk: FuncInfo, un: FuncInfo, alts
             st = enclosing_stmt(inner[0])
             ok = isinstance(st, ast.Assign) and strip_cast(st.value) is inner[0] and [chain(t) for t in st.targets] == [inner[0].args[1].id] \
                 and any(id(a) in loops_seen for a in ancestors(inner[0]))
+        if not ok:
+            # not the reviewed loop shape: before anything is reported, decide by interpretation what pack / unpack compute
+            _listof_interpreted(ctx, cls, pk, un, "the loop over the items does not have the reviewed shape")
+            return
         ctx.check(ok, "packer-symmetry", un, un.node, "ListOf: count prefix = number of items; the inner packer runs count times on the threaded offset",
                   "ListOf: the item count on the wire does not drive the number of inner unpacks / the offset is not threaded")
     if cls.name == "VarLenUtf8":
@@ -1496,12 +2445,31 @@ def _layout_agreement(ctx: Ctx, cls: ClassInfo, pk: FuncInfo, un: FuncInfo, alts
                 a = resolve(pk, pa[0])
                 enc = enc or (utf8_call(pk, a, "encode") and chain(resolve(pk, a.func.value)) == value_param)
         dec = any(utf8_call(un, c, "decode") for c in calls(un)) and any(parent_call(c, "unpack") is not None for c in calls(un))
-        ctx.check(enc and dec, "packer-symmetry", pk, pk.node, "VarLenUtf8: encode() on pack, decode() on unpack around VarLen", "VarLenUtf8 does not pair encode/decode around VarLen")
+        how = ""
+        if not (enc and dec):
+            # not the reviewed spelling (`bytes(s, "utf-8")`, `str(b, "utf-8")`, codecs, a helper ..): decided by what pack / unpack compute
+            bad = _varlenutf8_interpreted(ctx, cls, pk, un)
+            if bad is None:
+                # agreement on the strings that were tried is no proof: the evaluation may refute, never accept
+                raise AnalysisError("undecided: packer-symmetry: VarLenUtf8 does not pair the reviewed encode()/decode() spellings around VarLen; no counter-example "
+                                    "among the evaluated strings, but that it is the length-prefixed UTF-8 encoding of every str is not decided")
+            how = f" (evaluated on witness strings: {bad})"
+        ctx.check(enc and dec, "packer-symmetry", pk, pk.node, "VarLenUtf8: encode() on pack, decode() on unpack around VarLen" + (how if enc and dec else ""),
+                  "VarLenUtf8 does not pair encode/decode around VarLen" + how)
     if cls.name == "Address":
         consts = ctx.repo.module(SER).constants
         vals = {k: ctx.repo.resolve_const(ctx.repo.module(SER), consts[k]) for k in ("ADDRESS_TYPE_IPV4", "ADDRESS_TYPE_DOMAIN_NAME", "ADDRESS_TYPE_IPV6")}
         ok = len(set(vals.values())) == 3
-        tags_p = sorted({p[2][0] for a in alts for p in a if p[0] == "struct" and p[2]})
+        # the type tag is the first value of the first struct a branch writes (later pieces - the port written by a struct of its own - are data)
+        tags_p = sorted({p[2][0] for a in alts for p in a[:1] if p[0] == "struct" and p[2]})
+        for a in alts:
+            for p in a[:1]:
+                if p[0] == "struct" and p[2] and p[2][0] not in vals:
+                    cv = ctx.repo.resolve_const(pk.module, p[3][0], pk.cls)
+                    if not (isinstance(cv, int) and not isinstance(cv, bool)):
+                        # the tag a pack branch writes is computed (an attribute of a table entry this analysis cannot take apart, a parameter ..):
+                        # which tag goes with which layout is then not known - no verdict rather than a guess
+                        raise AnalysisError(f"undecided: packer-symmetry: Address.pack writes the type tag `{p[2][0][:40]}`, which is not one of the tag constants")
         ctx.check(ok and tags_p == sorted(vals), "packer-symmetry", pk, pk.node, f"Address: three distinct type tags {vals}, each written by one pack branch",
                   f"Address: type tags {vals} / written {tags_p}")
         # each unpack branch is selected by the tag that the matching pack branch writes, and reads the layout that branch wrote.
@@ -1521,16 +2489,24 @@ def _layout_agreement(ctx: Ctx, cls: ClassInfo, pk: FuncInfo, un: FuncInfo, alts
         layout_u: dict = {}
         conv_u: dict = {}
         sizes: dict = {}
+        opens: list[str] = []
         for t in [*sorted(vals), "<other>"]:
             for r, err in run_unpack_paths(ctx, pm, un, assume=(vals, t)):
                 if err:
                     raise AnalysisError(f"packer-symmetry: Address.unpack (tag {t}): {err}")
+                if r.open_tag is not None:
+                    opens.append(r.open_tag)
                 layout_u.setdefault(t, set()).add(chars_of_run(r))
                 conv_u.setdefault(t, set()).update(r.convs)
                 sizes.setdefault(t, set()).add(str(r.ret - Lin.sym("offset")) if r.ret is not None else "?")
         untagged = len(layout_u.pop("<other>", ()))
         conv_u.pop("<other>", None)
         ok = untagged == 0 and layout_p == layout_u and all(len(v) == 1 for v in layout_p.values())
+        if opens and not (ok and all(conv_p.get(t, set()) == conv_u.get(t, set()) for t in set(conv_p) | set(conv_u))):
+            # a selection on the tag that could not be evaluated was followed both ways: the pairing found is then an over-approximation -
+            # no verdict rather than an alarm about branches the code may never take for that tag
+            raise AnalysisError(f"undecided: packer-symmetry: Address.unpack selects the layout with `{opens[0]}`, which depends on the type tag "
+                                "but cannot be evaluated for an assumed tag")
         shown_p = {t: sorted(v) for t, v in layout_p.items()}
         ctx.check(ok, "packer-symmetry", un, un.node,
                   f"Address.unpack: every returning path is selected by one tag and reads the layout pack writes for that tag {shown_p} (sizes { {t: sorted(v) for t, v in sizes.items() if t != '<other>'} })",
@@ -1579,6 +2555,11 @@ class MiniUndecided(Exception):
 class MiniRaised(Exception):
     """The interpreted function raised (explicit `raise`, or a Python error of one of its own operations)."""
 
+    def __init__(self, msg: str = "", kind: str | None = None, value=None) -> None:
+        super().__init__(msg)
+        self.kind = kind            # name of the exception class when known ("KeyError", "PackError", "struct.error" -> "error")
+        self.value = value          # the interpreted exception object of an explicit `raise`, if it was built
+
 
 class _Ret(Exception):
     def __init__(self, value) -> None:
@@ -1616,10 +2597,48 @@ _BUILTINS = {"bool": bool, "int": int, "len": len, "range": range, "list": list,
              "reversed": reversed, "sum": sum, "any": any, "all": all, "filter": filter, "map": map, "min": min, "max": max, "sorted": sorted,
              "bytes": bytes, "abs": abs, "divmod": divmod, "reduce": functools.reduce, "functools.reduce": functools.reduce, "dict": dict,
              "set": set, "frozenset": frozenset, "str": str, "isinstance": None}
+_BUILTINS.update({"next": next, "iter": iter, "slice": slice, "bytearray": bytearray, "chr": chr, "ord": ord, "hex": hex, "pow": pow,
+                  "float": float, "round": round, "repr": repr, "bin": bin})
+# trusted stdlib callables, named by the module path their import resolves to (whatever local alias the module uses)
+_STDLIB = {f"operator.{n}": getattr(operator, n) for n in (
+    "or_", "and_", "xor", "add", "sub", "mul", "floordiv", "mod", "lshift", "rshift", "eq", "ne", "lt", "le", "gt", "ge", "is_", "is_not", "not_",
+    "truth", "contains", "getitem", "neg", "invert", "index", "concat", "countOf", "indexOf", "pos", "abs", "pow", "ior", "iand", "ixor", "iadd")}
+_STDLIB.update({f"itertools.{n}": getattr(itertools, n) for n in (
+    "chain", "islice", "takewhile", "dropwhile", "accumulate", "starmap", "compress", "zip_longest", "product", "filterfalse", "pairwise", "tee",
+    "groupby", "permutations", "combinations", "batched") if hasattr(itertools, n)})
+_STDLIB.update({"itertools.chain.from_iterable": itertools.chain.from_iterable, "functools.reduce": functools.reduce, "functools.partial": functools.partial,
+                "struct.calcsize": struct.calcsize})
+_STDLIB_SPECIAL = ("operator.itemgetter", "operator.attrgetter", "operator.methodcaller", "itertools.repeat", "itertools.count")
+_LAZY = ("enumerate", "zip", "reversed", "filter", "map", "list_iterator", "generator", "dict_items", "dict_keys", "dict_values", "tuple_iterator",
+         "range_iterator", "bytes_iterator", "str_iterator", "set_iterator", "dict_keyiterator", "dict_valueiterator", "dict_itemiterator",
+         "list_reverseiterator", "chain", "islice", "takewhile", "dropwhile", "accumulate", "starmap", "compress", "zip_longest", "product",
+         "filterfalse", "pairwise", "_tee", "repeat", "permutations", "combinations", "batched", "_grouper", "groupby", "callable_iterator")
 _PLAIN = (int, bool, str, bytes, tuple, list, dict, set, frozenset, type(None), range)
-_METHODS = {list: {"append", "extend", "insert", "index", "count", "pop", "reverse", "copy"}, tuple: {"index", "count"},
-            dict: {"get", "items", "keys", "values", "setdefault", "pop", "copy", "update"}, bytes: {"join", "startswith", "endswith", "decode", "hex"},
-            str: {"join", "startswith", "endswith", "encode", "lower", "upper"}, int: {"to_bytes", "bit_length"}, set: {"add", "discard"}}
+_METHODS = {list: {"append", "extend", "insert", "index", "count", "pop", "reverse", "copy", "sort", "remove", "clear"},
+            tuple: {"index", "count", "_replace", "_asdict"},
+            dict: {"get", "items", "keys", "values", "setdefault", "pop", "copy", "update"},
+            bytes: {"join", "startswith", "endswith", "decode", "hex", "rjust", "ljust", "split", "find", "index", "count", "replace"},
+            str: {"join", "startswith", "endswith", "encode", "lower", "upper", "format", "split", "strip", "replace", "find"},
+            int: {"to_bytes", "bit_length"}, set: {"add", "discard", "union", "intersection"}, frozenset: {"union", "intersection"}}
+
+
+class _Obj(Opaque):
+    """An instance of a small class of /repo built by the interpreted code (record, callable object): attributes + the class for method lookup."""
+
+    def __init__(self, cls: ClassInfo, attrs: dict | None = None) -> None:
+        super().__init__(f"{cls.name} object", attrs)
+        self.cls = cls
+
+
+class _EnumVal(Opaque):
+    """A member of an Enum class of /repo (one object per member; aliases share it)."""
+
+    def __init__(self, cls: ClassInfo, name: str, value, intlike: bool) -> None:
+        super().__init__(f"{cls.name}.{name}", {"name": name, "value": value, "_name_": name, "_value_": value})
+        self.cls, self.intlike = cls, intlike
+
+
+_ENUM_BASES = ("Enum", "IntEnum", "Flag", "IntFlag", "StrEnum")
 
 
 class _MiniStruct:
@@ -1706,13 +2725,13 @@ class Mini:
         if self.fuel < 0:
             raise MiniUndecided(f"{self.fi.qualname}: evaluation budget exhausted")
 
-    def _py(self, f, *a):
+    def _py(self, f, *a, **k):
         try:
-            return f(*a)
+            return f(*a, **k)
         except (MiniUndecided, MiniRaised, _Ret, _Brk, _Cont):
             raise
         except Exception as e:  # noqa: BLE001  (an error of the interpreted operation = the function raises)
-            raise MiniRaised(f"{type(e).__name__}: {e}") from e
+            raise MiniRaised(f"{type(e).__name__}: {e}", kind=type(e).__name__) from e
 
     # ---- statements
     def _block(self, stmts, env) -> None:
@@ -1776,13 +2795,53 @@ class Mini:
         elif isinstance(s, ast.Continue):
             raise _Cont
         elif isinstance(s, ast.Raise):
-            raise MiniRaised(f"raise {norm(s.exc)[:60] if s.exc is not None else ''}")
+            if s.exc is None:
+                cur = getattr(self, "_handling", None)
+                if cur:
+                    raise cur[-1]                   # bare `raise` inside a handler: the exception being handled
+                raise MiniRaised("raise (no active exception)", kind="RuntimeError")
+            x = strip_cast(s.exc)
+            if isinstance(x, ast.Name) and isinstance(env.get(x.id), MiniRaised):
+                raise env[x.id]                     # `except E as err: ... raise err`
+            raise MiniRaised(f"raise {norm(s.exc)[:60]}", kind=self._exc_kind(x, env))
+        elif isinstance(s, ast.Try):
+            try:
+                try:
+                    self._block(s.body, env)
+                except MiniRaised as ex:
+                    h = next((h for h in s.handlers if self._catches(h.type, ex, env)), None)
+                    if h is None:
+                        raise
+                    if h.name:
+                        env[h.name] = ex
+                    self._handling = [*getattr(self, "_handling", []), ex]
+                    try:
+                        self._block(h.body, env)
+                    finally:
+                        self._handling = self._handling[:-1]
+                else:
+                    self._block(s.orelse, env)
+            finally:
+                self._block(s.finalbody, env)
+        elif isinstance(s, ast.With):
+            types = []
+            for it in s.items:
+                c = strip_cast(it.context_expr)
+                if not (isinstance(c, ast.Call) and self._qualified(c.func) in ("contextlib.suppress",) and not c.keywords and it.optional_vars is None):
+                    raise MiniUndecided(f"{self.fi.qualname}: statement `{norm(s)[:60]}`")
+                types.extend(c.args)
+            try:
+                self._block(s.body, env)
+            except MiniRaised as ex:
+                if not any(self._catches(t, ex, env) for t in types):
+                    raise
         elif isinstance(s, ast.Assert):
             if not self._truth(self._ev(s.test, env)):
                 raise MiniRaised("AssertionError")
         elif isinstance(s, ast.Match):
             subj = self._ev(s.subject, env)
-            self._plain(subj, s)
+            if not isinstance(subj, (_EnumVal, _Obj)):
+                self._plain(subj, s)
             for case in s.cases:
                 if self._match(case.pattern, subj, env) and (case.guard is None or self._truth(self._ev(case.guard, env))):
                     self._block(case.body, env)
@@ -1793,8 +2852,40 @@ class Mini:
     def _match(self, p, subj, env) -> bool:
         if isinstance(p, ast.MatchValue):
             v = self._ev(p.value, env)
-            self._plain(v, p)
-            return subj == v
+            q = self._eq(subj, v)
+            if q is None:
+                self._plain(v, p)
+                self._plain(subj, p)
+            return bool(q)
+        if isinstance(p, ast.MatchClass):
+            k = self.repo.resolve_class_expr(self.fi.module, p.cls)
+            if k is None:
+                bt = _BUILTINS.get(chain(p.cls) or "")
+                if isinstance(bt, type) and not p.kwd_patterns and len(p.patterns) <= 1 and isinstance(subj, _PLAIN):
+                    return isinstance(subj, bt) and (not p.patterns or self._match(p.patterns[0], subj, env))     # `case int(x):`
+                raise MiniUndecided(f"{self.fi.qualname}: match pattern `{norm(p)[:50]}`")
+            sk = subj.cls if isinstance(subj, _Obj) else getattr(type(subj), "_mini_cls", None) if isinstance(subj, tuple) else None
+            if sk is None:
+                if isinstance(subj, _PLAIN) or isinstance(subj, _EnumVal):
+                    return False
+                raise MiniUndecided(f"{self.fi.qualname}: match of {subj!r} against `{norm(p)[:50]}`")
+            if k not in sk.mro():
+                return False
+            fields = record_class_fields(sk) or []
+            names = [a for _, a, _ in fields]
+            ma = sk.lookup_attr("__match_args__")
+            if ma is not None:
+                names = list(self._constant(sk.module, sk, ma))
+            if len(p.patterns) > len(names):
+                raise MiniRaised(f"TypeError: {sk.name}() accepts {len(names)} positional sub-patterns", kind="TypeError")
+            for sub, nm in [*zip(p.patterns, names), *zip(p.kwd_patterns, p.kwd_attrs)]:
+                try:
+                    v = self._getattr(subj, nm, p)
+                except MiniUndecided:
+                    return False
+                if not self._match(sub, v, env):
+                    return False
+            return True
         if isinstance(p, ast.MatchSingleton):
             return subj is p.value
         if isinstance(p, ast.MatchAs):
@@ -1808,6 +2899,318 @@ class Mini:
         if isinstance(p, ast.MatchSequence) and not any(isinstance(q, ast.MatchStar) for q in p.patterns):
             return isinstance(subj, (list, tuple)) and len(subj) == len(p.patterns) and all(self._match(q, x, env) for q, x in zip(p.patterns, subj))
         raise MiniUndecided(f"{self.fi.qualname}: match pattern `{norm(p)[:50]}`")
+
+    # ---- exceptions
+    def _exc_class(self, x: ast.AST, env):
+        """a builtin exception class, a ClassInfo of /repo, or None for the class expression x"""
+        c = chain(x)
+        if c is None or (isinstance(x, ast.Name) and x.id in env):
+            return None
+        k = self.repo.resolve_class_expr(self.fi.module, x)
+        if k is not None:
+            return k
+        q = self._qualified(x)
+        if q in ("struct.error",):
+            return struct.error
+        last = c.split(".")[-1]
+        b = getattr(builtins, last, None)
+        if isinstance(b, type) and issubclass(b, BaseException) and (isinstance(x, ast.Name) and x.id not in self.fi.module.imports or q == f"builtins.{last}"):
+            return b
+        return None
+
+    def _exc_kind(self, x: ast.AST, env) -> str | None:
+        k = self._exc_class(x.func if isinstance(x, ast.Call) else x, env)
+        if k is None:
+            return None
+        return k.name if isinstance(k, ClassInfo) else ("error" if k is struct.error else k.__name__)
+
+    def _catches(self, typ, ex: MiniRaised, env) -> bool:
+        """Does `except <typ>` catch the interpreted exception?  Undecided when either class is not known."""
+        if typ is None:
+            return True
+        names = list(typ.elts) if isinstance(typ, ast.Tuple) else [typ]
+        if ex.kind is None:
+            raise MiniUndecided(f"{self.fi.qualname}: `except {norm(typ)[:40]}` around an exception of unknown class ({ex})")
+        # the class of the raised exception: a builtin one, struct.error, or a class of /repo with its builtin ancestry
+        raised_repo = None
+        raised_py = struct.error if ex.kind == "error" else getattr(builtins, ex.kind, None)
+        if not (isinstance(raised_py, type) and issubclass(raised_py, BaseException)):
+            raised_py = None
+            cands = self.repo.classes.get(ex.kind, [])
+            if len(cands) != 1:
+                raise MiniUndecided(f"{self.fi.qualname}: exception class {ex.kind} is not known")
+            raised_repo = cands[0]
+        for n in names:
+            k = self._exc_class(n, env)
+            if k is None:
+                raise MiniUndecided(f"{self.fi.qualname}: `except {norm(n)[:40]}`: unknown exception class")
+            if isinstance(k, ClassInfo):
+                if raised_repo is not None and k in raised_repo.mro():
+                    return True
+                continue
+            if raised_py is not None:
+                if issubclass(raised_py, k):
+                    return True
+                continue
+            # a /repo exception caught by a builtin class: through its first builtin ancestor
+            anc = None
+            for c in raised_repo.mro():
+                for b in c.base_names:
+                    pb = getattr(builtins, b.split(".")[-1], None)
+                    if isinstance(pb, type) and issubclass(pb, BaseException):
+                        anc = anc or pb
+            if anc is None:
+                raise MiniUndecided(f"{self.fi.qualname}: ancestry of exception class {ex.kind}")
+            if issubclass(anc, k):
+                return True
+        return False
+
+    # ---- names of trusted stdlib functions, by what the module's imports say (not by the local spelling)
+    def _qualified(self, x: ast.AST) -> str | None:
+        """'operator.or_' for `or_` (from operator import or_) / `op.or_` (import operator as op); None when x is not an imported name."""
+        parts = []
+        while isinstance(x, ast.Attribute):
+            parts.append(x.attr)
+            x = x.value
+        if not isinstance(x, ast.Name):
+            return None
+        imp = self.fi.module.imports.get(x.id)
+        if imp is None:
+            return None
+        mod, attr = imp
+        return ".".join([mod, *([attr] if attr else []), *reversed(parts)])
+
+    def _stdlib(self, x: ast.AST, env):
+        """the trusted callable an expression names, or None"""
+        root = x
+        while isinstance(root, ast.Attribute):
+            root = root.value
+        if not isinstance(root, ast.Name) or root.id in env:
+            return None
+        q = self._qualified(x)
+        if q is None:
+            return None
+        if q in _STDLIB:
+            return _STDLIB[q]
+        if q in _STDLIB_SPECIAL:
+            return getattr(self, "_sl_" + q.split(".")[-1])
+        return None
+
+    def _sl_itemgetter(self, *items):
+        if not items or not all(isinstance(i, (int, str, bytes, slice)) for i in items):
+            raise MiniUndecided("itemgetter of a computed key")
+        g = operator.itemgetter(*items)
+
+        def get(o):
+            self._plain(o, ast.Constant(value="itemgetter"))
+            return self._py(g, o)
+        return get
+
+    def _sl_attrgetter(self, *names):
+        if not names or not all(isinstance(n, str) and "." not in n for n in names):
+            raise MiniUndecided("attrgetter of a computed / dotted name")
+
+        def get(o):
+            vals = tuple(self._getattr(o, n, ast.Constant(value="attrgetter")) for n in names)
+            return vals[0] if len(vals) == 1 else vals
+        return get
+
+    def _sl_methodcaller(self, name, *args, **kwargs):
+        def call(o):
+            return self._method(o, name, list(args), dict(kwargs), ast.Constant(value="methodcaller"))
+        return call
+
+    _UNBOUNDED = 1_000_000      # unbounded stdlib iterators are cut here: a terminating function never consumes that many elements of them
+
+    def _sl_repeat(self, obj, times=None):
+        if times is not None and not isinstance(times, int):
+            raise MiniUndecided("itertools.repeat with a computed count")
+        return itertools.repeat(obj, self._UNBOUNDED if times is None else times)
+
+    def _sl_count(self, start=0, step=1):
+        if not all(isinstance(x, int) and not isinstance(x, bool) for x in (start, step)) or step == 0:
+            raise MiniUndecided("itertools.count with non-integer arguments")
+        return iter(range(start, start + step * self._UNBOUNDED, step))
+
+    # ---- objects of small /repo classes
+    def _sub(self, fi: FuncInfo) -> "Mini":
+        sub = type(self)(self.repo, fi, self.on_call, self.fuel)
+        sub._call_depth = getattr(self, "_call_depth", 0) + 1
+        return sub
+
+    def _run(self, fi: FuncInfo, *args, **kwargs):
+        if getattr(self, "_call_depth", 0) > 6 or fi.is_async or any(isinstance(x, (ast.Yield, ast.YieldFrom)) for x in walk_no_nested(fi.node)):
+            raise MiniUndecided(f"{self.fi.qualname}: call of {fi.qualname}")
+        sub = self._sub(fi)
+        try:
+            return sub(*args, **kwargs)
+        finally:
+            self.fuel = sub.fuel
+
+    def _function_value(self, fi: FuncInfo, recv=None, bound: bool = False):
+        """a function of /repo used as a value (passed to map / reduce, stored in a dispatch table): calling it interprets it"""
+        def call(*a, **k):
+            return self._run(fi, *([recv] if bound else []), *a, **k)
+        call._mini_fi = fi
+        return call
+
+    def _class_value(self, k: ClassInfo, where):
+        def make(*a, **kw):
+            if self.on_call is not None:
+                r = self.on_call(k.name, None, list(a), dict(kw))
+                if r is not NotImplemented:
+                    return r
+            return self._construct(k, list(a), dict(kw), where)
+        make._mini_cls = k
+        return make
+
+    def _enum_member(self, k: ClassInfo, name: str):
+        cache = self.repo.__dict__.setdefault("_c02_enum_members", {})
+        if (k, name) not in cache:
+            owner = next(c for c in k.mro() if name in c.attrs)
+            a = strip_cast(owner.attrs[name])
+            if isinstance(a, ast.Call) and (chain(a.func) or "").split(".")[-1] == "auto" and not a.args:
+                value = Opaque(f"auto() value of {k.name}.{name}")
+            else:
+                value = self._constant(owner.module, owner, a)
+            intlike = any(b.split(".")[-1] in ("IntEnum", "IntFlag") for b in k.all_base_names())
+            same = next((m for (kk, _), m in cache.items() if kk is k and isinstance(value, _PLAIN) and isinstance(m.attrs["value"], _PLAIN)
+                         and type(m.attrs["value"]) is type(value) and m.attrs["value"] == value), None)
+            cache[(k, name)] = same if same is not None else _EnumVal(k, name, value, intlike)
+        return cache[(k, name)]
+
+    @staticmethod
+    def _is_enum(k: ClassInfo) -> bool:
+        return any(b.split(".")[-1] in _ENUM_BASES for b in k.all_base_names())
+
+    def _enum_names(self, k: ClassInfo) -> list[str]:
+        out = []
+        for c in reversed(k.mro()):
+            for st in c.node.body:
+                if isinstance(st, ast.Assign) and len(st.targets) == 1 and isinstance(st.targets[0], ast.Name) and not st.targets[0].id.startswith("_"):
+                    out.append(st.targets[0].id)
+        return out
+
+    def _construct(self, k: ClassInfo, args: list, kwargs: dict, where):
+        """`K(..)` for a small class of /repo: a NamedTuple (a real tuple with named fields), an Enum lookup by value, or an object whose
+        constructor is interpreted (dataclass fields / __init__)."""
+        if self._is_enum(k):
+            if len(args) != 1 or kwargs:
+                raise MiniUndecided(f"call `{norm(where)[:50]}`")
+            for n in self._enum_names(k):
+                m = self._enum_member(k, n)
+                v = m.attrs["value"]
+                if isinstance(v, _PLAIN) and isinstance(args[0], _PLAIN) and v == args[0]:
+                    return m
+                if not isinstance(v, _PLAIN):
+                    raise MiniUndecided(f"lookup by value in enum {k.name} with auto() values")
+            raise MiniRaised(f"ValueError: {args[0]!r} is not a valid {k.name}", kind="ValueError")
+        outside = {b.split(".")[-1].split("[")[0] for b in k.all_base_names()} - {c.name for c in k.mro()} - {"object", "NamedTuple", "Generic", "Protocol"}
+        if outside or k.lookup("__new__") is not None:
+            raise MiniUndecided(f"{self.fi.qualname}: construction of {k.name} (bases {sorted(outside)})")
+        fields = record_class_fields(k)
+        init = k.lookup("__init__")
+        tuple_like = "NamedTuple" in {b.split(".")[-1].split("[")[0] for b in k.all_base_names()}
+        decos = {(chain(d.func if isinstance(d, ast.Call) else d) or "").split(".")[-1] for d in k.node.decorator_list}
+        if fields is not None and (tuple_like or ("dataclass" in decos and init is None)):
+            if len(args) > len(fields):
+                raise MiniRaised(f"TypeError: {k.name}() takes {len(fields)} positional arguments", kind="TypeError")
+            given = {p: v for (p, _, _), v in zip(fields, args)}
+            for kw, v in kwargs.items():
+                if kw in given or kw not in {p for p, _, _ in fields}:
+                    raise MiniRaised(f"TypeError: {k.name}() got an unexpected / repeated keyword argument {kw!r}", kind="TypeError")
+                given[kw] = v
+            vals = {}
+            for p_, attr, default in fields:
+                if p_ in given:
+                    vals[attr] = given[p_]
+                elif default is not None:
+                    d = strip_cast(default)
+                    if isinstance(d, ast.Call) and (chain(d.func) or "").split(".")[-1] == "field":
+                        raise MiniUndecided(f"dataclass field default `{norm(d)[:40]}`")
+                    vals[attr] = self._constant(k.module, k, d)
+                else:
+                    raise MiniRaised(f"TypeError: {k.name}() missing argument {p_!r}", kind="TypeError")
+            if tuple_like:
+                cache = self.repo.__dict__.setdefault("_c02_namedtuples", {})
+                if k not in cache:
+                    nt = collections.namedtuple(k.name, [a for _, a, _ in fields], rename=False)
+                    nt._mini_cls = k
+                    cache[k] = nt
+                return cache[k](*[vals[a] for _, a, _ in fields])
+            return _Obj(k, vals)
+        o = _Obj(k, {})
+        if init is not None and init.cls is not None and init.cls.name != "object":
+            self._run(init, o, *args, **kwargs)
+        elif args or kwargs:
+            raise MiniRaised(f"TypeError: {k.name}() takes no arguments", kind="TypeError")
+        return o
+
+    def _getattr(self, base, attr: str, where):
+        """attribute of an interpreted value (object of a /repo class, NamedTuple, enum member, opaque token)"""
+        if isinstance(base, Opaque) and attr in base.attrs:
+            return base.attrs[attr]
+        k = base.cls if isinstance(base, (_Obj, _EnumVal)) else getattr(type(base), "_mini_cls", None) if isinstance(base, tuple) else None
+        if isinstance(base, tuple) and k is not None and attr in getattr(base, "_fields", ()):
+            return getattr(base, attr)
+        if k is not None:
+            m = k.lookup(attr)
+            if m is not None:
+                decs = {d.split(".")[-1] for d in m.decorator_names()}
+                if decs & {"property", "cached_property"}:
+                    return self._run(m, base)
+                if "staticmethod" in decs:
+                    return self._function_value(m)
+                if not decs:
+                    return self._function_value(m, base, bound=True)
+            a = k.lookup_attr(attr)
+            if a is not None and not (self._is_enum(k) and isinstance(base, _EnumVal)):
+                owner = next(c for c in k.mro() if attr in c.attrs)
+                return self._constant(owner.module, owner, a)
+        raise MiniUndecided(f"{self.fi.qualname}: attribute `{attr}` of {base!r} in `{norm(where)[:50]}`")
+
+    def _method(self, base, attr: str, args: list, kwargs: dict, where):
+        """method call on an interpreted value"""
+        named = isinstance(base, tuple) and getattr(type(base), "_mini_cls", None) is not None
+        if isinstance(base, _PLAIN) and (not named or attr in ("index", "count", "_replace", "_asdict")):
+            ok = any(isinstance(base, t) and attr in ms for t, ms in _METHODS.items())
+            if not ok:
+                raise MiniUndecided(f"method `{attr}` of {type(base).__name__} in `{norm(where)[:50]}`")
+            if attr == "sort" and (kwargs or args):
+                raise MiniUndecided(f"`{norm(where)[:50]}` with a key")
+            return self._py(getattr(base, attr), *args, **kwargs)
+        f = self._getattr(base, attr, where)
+        if callable(f):
+            return self._py(f, *args, **kwargs)
+        if isinstance(f, _Obj):
+            return self._call_value(f, args, kwargs, where)
+        raise MiniUndecided(f"{self.fi.qualname}: call of `{attr}` of {base!r}")
+
+    def _call_value(self, f, args: list, kwargs: dict, where):
+        """call of a computed callee: an interpreted function value / lambda / partial / trusted stdlib callable / callable object"""
+        if isinstance(f, _Obj):
+            m = f.cls.lookup("__call__")
+            if m is None:
+                raise MiniRaised(f"TypeError: {f!r} is not callable", kind="TypeError")
+            return self._run(m, f, *args, **kwargs)
+        if isinstance(f, Opaque) or not callable(f):
+            raise MiniUndecided(f"{self.fi.qualname}: call of {f!r} in `{norm(where)[:50]}`")
+        return self._py(f, *args, **kwargs)
+
+    def _eq(self, a, b):
+        """a == b for interpreted values: enum members compare by identity (IntEnum also with ints); None when not decidable"""
+        if isinstance(a, _EnumVal) or isinstance(b, _EnumVal):
+            if isinstance(a, _EnumVal) and isinstance(b, _EnumVal):
+                return a is b
+            e, o = (a, b) if isinstance(a, _EnumVal) else (b, a)
+            if isinstance(o, Opaque):
+                return None
+            if e.intlike and isinstance(e.attrs["value"], _PLAIN):
+                return e.attrs["value"] == o
+            return None if e.intlike else False
+        if isinstance(a, _PLAIN) and isinstance(b, _PLAIN):
+            return self._py(operator.eq, a, b)
+        return None
 
     def _constant(self, module, cls, expr):
         """Value of a module-level / class-level constant: its initialiser evaluated in its own scope (displays, comprehensions, Struct(..))."""
@@ -1852,9 +3255,7 @@ class Mini:
             raise MiniUndecided(f"assignment target `{norm(t)[:50]}`")
 
     def _iter(self, v, where):
-        if isinstance(v, (list, tuple, range, dict, set, frozenset, bytes, str)) or type(v).__name__ in ("enumerate", "zip", "reversed", "filter", "map",
-                                                                                                       "list_iterator", "generator", "dict_items",
-                                                                                                       "dict_keys", "dict_values"):
+        if isinstance(v, (list, tuple, range, dict, set, frozenset, bytes, str, bytearray)) or type(v).__name__ in _LAZY:
             return self._py(list, v)
         raise MiniUndecided(f"iteration over {v!r} in `{norm(where)[:50]}`")
 
@@ -1882,7 +3283,16 @@ class Mini:
             r = self.repo.resolve_name(self.fi.module, e.id)
             if isinstance(r, tuple) and r[0] == "const":
                 return self._constant(r[1], None, r[2])          # a module-level table / precompiled struct: its initialiser is evaluated
-            if e.id in _BUILTINS and _BUILTINS[e.id] is not None:
+            if isinstance(r, FuncInfo) and r.cls is None:
+                return self._function_value(r)                   # a module-level function used as a value (dispatch table, map / reduce argument)
+            if isinstance(r, ClassInfo):
+                return self._class_value(r, e)                   # a class used as a value (table of record classes, partial(K, ..), map(K, ..))
+            sl = self._stdlib(e, env)
+            if sl is not None:
+                return sl
+            if r is None and self.fi.cls is not None and self.fi.node is None and self.fi.cls.lookup(e.id) is not None:
+                return self._function_value(self.fi.cls.lookup(e.id))      # a function of the class body named inside a class-level table
+            if e.id in _BUILTINS and _BUILTINS[e.id] is not None and e.id not in self.fi.module.imports:
                 return _BUILTINS[e.id]
             if e.id in ("True", "False", "None"):
                 return {"True": True, "False": False, "None": None}[e.id]
@@ -1894,14 +3304,39 @@ class Mini:
                 env["\0outer"][e.target.id] = v             # a walrus inside a comprehension binds in the enclosing function
             return v
         if isinstance(e, ast.Attribute):
-            c = self.repo.resolve_const(self.fi.module, e, self.fi.cls)
-            if c is not NOCONST:
-                return c
+            root = e
+            while isinstance(root, ast.Attribute):
+                root = root.value
+            shadowed = isinstance(root, ast.Name) and root.id in env and root.id not in ("self", "cls")
+            if not shadowed:
+                k = self.repo.resolve_class_expr(self.fi.module, e.value)
+                if k is not None and self._is_enum(k) and any(e.attr in c.attrs for c in k.mro()) and not e.attr.startswith("_"):
+                    return self._enum_member(k, e.attr)
+                c = self.repo.resolve_const(self.fi.module, e, self.fi.cls)
+                if c is not NOCONST:
+                    return c
+                sl = self._stdlib(e, env)
+                if sl is not None:
+                    return sl
+                if k is not None and k.lookup(e.attr) is not None:
+                    m = k.lookup(e.attr)
+                    decs = {d.split(".")[-1] for d in m.decorator_names()}
+                    if "staticmethod" in decs or not decs:
+                        return self._function_value(m)         # `K.method` as a plain function value
+                if k is not None and k.lookup_attr(e.attr) is not None:
+                    owner = next(c_ for c_ in k.mro() if e.attr in c_.attrs)
+                    return self._constant(owner.module, owner, owner.attrs[e.attr])
             base = self._ev(e.value, env)
             if isinstance(base, Opaque) and e.attr in base.attrs:
                 return base.attrs[e.attr]
             if isinstance(base, _MiniStruct) and e.attr in ("size", "format"):
                 return self._py(struct.calcsize, base.fmt) if e.attr == "size" else base.fmt
+            if isinstance(base, (_Obj, _EnumVal)) or (isinstance(base, tuple) and getattr(type(base), "_mini_cls", None) is not None):
+                return self._getattr(base, e.attr, e)
+            if isinstance(base, MiniRaised) and e.attr == "args":
+                raise MiniUndecided(f"{self.fi.qualname}: arguments of a caught exception")
+            if isinstance(base, slice) and e.attr in ("start", "stop", "step"):
+                return getattr(base, e.attr)
             if isinstance(e.value, ast.Name) and e.value.id in ("self", "cls") and self.fi.cls is not None and isinstance(base, Opaque):
                 a = self.fi.cls.lookup_attr(e.attr)
                 if a is not None:
@@ -1930,6 +3365,11 @@ class Mini:
         if isinstance(e, ast.Subscript):
             base = self._ev(e.value, env)
             self._plain(base, e)
+            if not isinstance(e.slice, ast.Slice):
+                idx = self._ev(e.slice, env)
+                if isinstance(idx, Opaque) and not isinstance(idx, _EnumVal):
+                    raise MiniUndecided(f"subscript `{norm(e)[:50]}` with {idx!r}")
+                return self._py(operator.getitem, base, idx)
             if isinstance(e.slice, ast.Slice):
                 sl = slice(*(self._ev(x, env) if x is not None else None for x in (e.slice.lower, e.slice.upper, e.slice.step)))
                 return self._py(operator.getitem, base, sl)
@@ -1957,6 +3397,20 @@ class Mini:
             l = self._ev(e.left, env)
             for op, right in zip(e.ops, e.comparators):
                 r = self._ev(right, env)
+                if isinstance(op, (ast.Eq, ast.NotEq)) and (isinstance(l, _EnumVal) or isinstance(r, _EnumVal)):
+                    q = self._eq(l, r)
+                    if q is None:
+                        raise MiniUndecided(f"comparison `{norm(e)[:50]}`")
+                    if q != isinstance(op, ast.Eq):
+                        return False
+                    l = r
+                    continue
+                if isinstance(op, (ast.In, ast.NotIn)) and isinstance(l, _EnumVal) and isinstance(r, (tuple, list, set, frozenset, dict)) \
+                        and all(isinstance(x, _EnumVal) for x in r):
+                    if (l in r) != isinstance(op, ast.In):          # members are singletons: identity == equality
+                        return False
+                    l = r
+                    continue
                 if not (isinstance(op, (ast.Is, ast.IsNot)) or (isinstance(l, _PLAIN) and isinstance(r, _PLAIN))):
                     raise MiniUndecided(f"comparison `{norm(e)[:50]}`")
                 if not self._py(_CMP[type(op)], l, r):
@@ -1965,7 +3419,16 @@ class Mini:
             return True
         if isinstance(e, ast.IfExp):
             return self._ev(e.body if self._truth(self._ev(e.test, env)) else e.orelse, env)
-        if isinstance(e, (ast.ListComp, ast.SetComp, ast.GeneratorExp, ast.DictComp)):
+        if isinstance(e, ast.GeneratorExp):
+            # lazy, as in Python: the first iterable is evaluated now, elements are produced on demand (next(..., default), any(), takewhile ...)
+            inner = dict(env)
+            inner["\0outer"] = env.get("\0outer", env)
+            g0 = e.generators[0]
+            if g0.is_async:
+                raise MiniUndecided("async comprehension")
+            first = self._lazy_iter(self._ev(g0.iter, inner), g0.iter)
+            return self._gen(e, 0, inner, first)
+        if isinstance(e, (ast.ListComp, ast.SetComp, ast.DictComp)):
             out = []
             inner = dict(env)
             inner["\0outer"] = env.get("\0outer", env)
@@ -1980,6 +3443,28 @@ class Mini:
         if isinstance(e, ast.Call):
             return self._call(e, env)
         raise MiniUndecided(f"{self.fi.qualname}: expression `{norm(e)[:60]}`")
+
+    def _lazy_iter(self, v, where):
+        if isinstance(v, (list, tuple, range, dict, set, frozenset, bytes, str, bytearray)) or type(v).__name__ in _LAZY:
+            return self._py(iter, v)
+        raise MiniUndecided(f"iteration over {v!r} in `{norm(where)[:50]}`")
+
+    def _gen(self, e, i: int, env: dict, first=None):
+        g = e.generators[i]
+        if g.is_async:
+            raise MiniUndecided("async comprehension")
+        it = first if first is not None else self._lazy_iter(self._ev(g.iter, env), g.iter)
+        while True:
+            item = self._py(next, it, _NOBASE)
+            if item is _NOBASE:
+                return
+            self._tick()
+            self._store(g.target, item, env)
+            if all(self._truth(self._ev(c, env)) for c in g.ifs):
+                if i + 1 == len(e.generators):
+                    yield self._ev(e.elt, env)
+                else:
+                    yield from self._gen(e, i + 1, env)
 
     def _comp(self, e, i: int, env: dict, out: list) -> None:
         if i == len(e.generators):
@@ -2001,29 +3486,46 @@ class Mini:
                 args.extend(self._iter(self._ev(a.value, env), a))
             else:
                 args.append(self._ev(a, env))
-        if any(k.arg is None for k in e.keywords):
-            raise MiniUndecided("** in call")
-        kwargs = {k.arg: self._ev(k.value, env) for k in e.keywords}
+        kwargs = {}
+        for k in e.keywords:
+            v = self._ev(k.value, env)
+            if k.arg is None:
+                if not (isinstance(v, dict) and all(isinstance(x, str) for x in v)):
+                    raise MiniUndecided(f"** of {v!r} in call")
+                dup = set(v) & set(kwargs)
+                if dup:
+                    raise MiniRaised(f"TypeError: got multiple values for keyword argument {sorted(dup)[0]!r}", kind="TypeError")
+                kwargs.update(v)
+            else:
+                kwargs[k.arg] = v
         name = chain(e.func)
+        if not isinstance(strip_cast(e.func), (ast.Name, ast.Attribute)):
+            # a computed callee: `TABLE[tag](..)`, `partial(f, x)(y)`, `(lambda ..)(..)`, `itemgetter(1)(entry)`
+            return self._call_value(self._ev(e.func, env), args, kwargs, e)
+        sl = self._stdlib(e.func, env)
+        if sl is not None:
+            q = self._qualified(e.func) or ""
+            if q.startswith("operator.") and q not in ("operator.is_", "operator.is_not") and any(isinstance(a, Opaque) for a in args):
+                raise MiniUndecided(f"call `{norm(e)[:50]}`")          # operators on a token: its value is not known
+            return self._py(sl, *args, **kwargs)
         # method of a plain value
         if isinstance(e.func, ast.Attribute):
             try:
                 base = self._ev(e.func.value, env)
             except MiniUndecided:
                 base = _NOBASE
-            if base is not _NOBASE and isinstance(base, _PLAIN):
-                ok = any(isinstance(base, t) and e.func.attr in ms for t, ms in _METHODS.items())
-                if not ok:
-                    raise MiniUndecided(f"method `{norm(e.func)[:50]}` of {type(base).__name__}")
-                return self._py(getattr(base, e.func.attr), *args, **kwargs)
+            if base is not _NOBASE and isinstance(base, _PLAIN) or (base is not _NOBASE and isinstance(base, (_Obj, _EnumVal))):
+                return self._method(base, e.func.attr, args, kwargs, e)
             if base is not _NOBASE and isinstance(base, _MiniStruct) and e.func.attr in ("pack", "unpack", "unpack_from", "iter_unpack"):
                 # method of a precompiled struct = the struct function of that name with the format in front
                 name, base, args = e.func.attr, _NOBASE, [base.fmt, *args]
+            elif base is not _NOBASE and (type(base).__name__ in ("function", "partial", "builtin_function_or_method", "method") or type(base).__name__ in _LAZY):
+                raise MiniUndecided(f"method `{norm(e.func)[:50]}` of {type(base).__name__}")
         else:
             base = _NOBASE
         if isinstance(e.func, ast.Name) and e.func.id in env:
-            if callable(env[e.func.id]):
-                return self._py(env[e.func.id], *args)
+            if callable(env[e.func.id]) or isinstance(env[e.func.id], _Obj):
+                return self._call_value(env[e.func.id], args, kwargs, e)
             base = env[e.func.id]            # a local / parameter that is called (e.g. `cls(...)`): handed to the hook as the callee value
         if name in ("Struct", "struct.Struct") and len(args) == 1 and isinstance(args[0], str) and not kwargs and not (isinstance(e.func, ast.Name) and e.func.id in env):
             self._py(struct.calcsize, args[0])
@@ -2034,17 +3536,50 @@ class Mini:
                 return r
         target, recv = self._helper(e, base)
         if target is not None:
-            sub = Mini(self.repo, target, self.on_call, self.fuel)
-            sub._call_depth = getattr(self, "_call_depth", 0) + 1
+            sub = self._sub(target)
             try:
                 return sub(*([recv] if recv is not _NOBASE else []), *args, **kwargs)
             finally:
                 self.fuel = sub.fuel
-        if name in _BUILTINS and _BUILTINS[name] is not None and not (isinstance(e.func, ast.Name) and e.func.id in env):
-            if name in ("filter", "map", "reduce", "functools.reduce", "sorted", "min", "max") and any(isinstance(a, Opaque) for a in args):
+        if base is _NOBASE and not (isinstance(e.func, ast.Name) and e.func.id in env):
+            k = self.repo.resolve_class_expr(self.fi.module, e.func)
+            if k is not None:
+                return self._construct(k, args, kwargs, e)       # a small class of /repo: NamedTuple / dataclass / enum lookup / callable object
+            if isinstance(e.func, ast.Name):
+                r = self.repo.resolve_name(self.fi.module, e.func.id)
+                if isinstance(r, tuple) and r[0] == "const":
+                    f = _factory_fields(r[2])                    # X = namedtuple("X", "a b")
+                    if f is not None:
+                        cache = self.repo.__dict__.setdefault("_c02_namedtuples", {})
+                        key = (r[1].relpath, e.func.id)
+                        if key not in cache:
+                            cache[key] = collections.namedtuple(e.func.id, [a for _, a, _ in f])
+                        return self._py(cache[key], *args, **kwargs)
+                    return self._call_value(self._constant(r[1], None, r[2]), args, kwargs, e)     # a module-level callable: partial(..), itemgetter(..), a lambda
+        if name == "isinstance" and len(args) == 2 and not kwargs and not (isinstance(e.func, ast.Name) and e.func.id in env):
+            kinds = list(args[1]) if isinstance(args[1], tuple) else [args[1]]
+            res = False
+            for t in kinds:
+                if isinstance(t, type) and t in (bool, int, str, bytes, tuple, list, dict, set, frozenset, float, bytearray, slice, range):
+                    if isinstance(args[0], Opaque):
+                        continue                       # an object of a /repo class (or a token) is none of the builtin value types
+                    if not isinstance(args[0], _PLAIN + (float, bytearray, slice)):
+                        raise MiniUndecided(f"call `{norm(e)[:50]}`")
+                    res = res or isinstance(args[0], t)
+                elif getattr(t, "_mini_cls", None) is not None:
+                    k0 = args[0].cls if isinstance(args[0], (_Obj, _EnumVal)) else getattr(type(args[0]), "_mini_cls", None) if isinstance(args[0], tuple) else None
+                    if k0 is None and not isinstance(args[0], _PLAIN):
+                        raise MiniUndecided(f"call `{norm(e)[:50]}`")
+                    res = res or (k0 is not None and t._mini_cls in k0.mro())
+                else:
+                    raise MiniUndecided(f"call `{norm(e)[:50]}`")
+            return res
+        if name in _BUILTINS and _BUILTINS[name] is not None and not (isinstance(e.func, ast.Name) and (e.func.id in env or e.func.id in self.fi.module.imports)):
+            if name in ("filter", "map", "reduce", "functools.reduce", "sorted", "min", "max", "next", "iter") and any(isinstance(a, Opaque) for a in args):
                 raise MiniUndecided(f"call `{norm(e)[:50]}`")
-            r = self._py(_BUILTINS[name], *args, **kwargs)
-            return self._py(list, r) if type(r).__name__ in ("filter", "map", "zip", "enumerate", "reversed") else r
+            if name == "sorted" and kwargs.get("key") is None and any(isinstance(x, Opaque) for a in args[:1] if isinstance(a, (list, tuple)) for x in a):
+                raise MiniUndecided(f"call `{norm(e)[:50]}`")
+            return self._py(_BUILTINS[name], *args, **kwargs)
         raise MiniUndecided(f"{self.fi.qualname}: call `{norm(e)[:60]}`")
 
 
